@@ -190,2002 +190,1729 @@ repeat packetx
     `a\`
 ,  }
 ")).
-Eval vm_compute in ("<<<M265>>>" ++ check (runes_of_ascii "MetaData MetaDataX
-{
-    Foo BodyLength // packet A { u8 x, }
-, As T , }options { calculatedFrom = true  ;// " ++ [27880; 37322]%N ++ runes_of_ascii "
-Header
-= true}
-// trailing space 
-// c
-packet tag {	@leftPad (
-    '\x00') @lengthOf( Foo)// a // b
-@tag(
-    42)string body
-    ,
-@calculatedFrom(""abc"")
-char[ 00
-]	len,@calculatedFrom( """ ++ [128512]%N ++ runes_of_ascii """
-)	repeat tag ,match msg_type as // @lengthOf(
-Header {	65535
-//
-// @lengthOf(
-: roots , ""abc"" //
-: string_ , [ 007 , 0
-    // `tick` ""quote"" 'q'
-    ,	007 ]:
-// " ++ [128512]%N ++ runes_of_ascii " emoji
-// a // b
-zchar 255
-    //
-    : Packet [ ""packet"" , 0 ,
-    ""\" ++ [233]%N ++ runes_of_ascii """ , ""x y"" , 65535 , """ ++ [233]%N ++ runes_of_ascii "t" ++ [233]%N ++ runes_of_ascii """ , 0123456789
-,
-7]
-: //
-matchKey} ,repeat
-int64
-metadata`
-`
-,
-i64_
-`` //
-, char[42 ] MetaDataX
-// `tick` ""quote"" 'q'
-// c
-@calculatedFrom( ""CRC32"" ) , zchar[ 255 ]
-    //
-    roots	@lengthOf(
-    options1
-    ) `two words` , msg_type @calculatedFrom(
-    //x
-    ""\n""  ) ,
-    u len , } packet x {
-} packet falsey
-{  @calculatedFrom(
-""a	b""
-)
-    int64 falsey
-    `{ , }`,
-    repeat f64 crc// trailing space 
-,
-    @tag(	255) uint32 // a // b
-chars `" ++ [28040; 24687; 31867; 22411]%N ++ runes_of_ascii "` , @leftPad ( '\x00'	)@lengthOf( falsey )
-@calculatedFrom(	""a	b"" )  stringy { zchar[ // " ++ [27880; 37322]%N ++ runes_of_ascii "
-7	] Pad `line1
-line2` , string
-    pack,
-    // @lengthOf(
-    float64 string_ ,	},	repeat rootA{	match Logon as
+Eval vm_compute in ("<<<M1355>>>" ++ check (runes_of_ascii "packet float {  @lengthOf(
+matchKey )	int64	options1 @calculatedFrom( ""{,}"" )`it's`, repeat
+i32 msg_type `a\` ,  options1  @calculatedFrom(""it's""
+)  `// not a comment`, @lengthOf( roots) u8 repeatCount
+`say ""hi""` ,
+    int16 len, char[]
+chars @lengthOf(
+    repeatCount ) ,
     /// triple
-    o // " ++ [27880; 37322]%N ++ runes_of_ascii "
-{ 007 //x
-:leftPad
-    , 0	: T , ""CRC32"" :
-T
-[ ""a	b"" ]: Logon , } ,
-    match // @lengthOf(
-x_y_z as
-_x
-{ 10
-:
-metadata , """ ++ [233]%N ++ runes_of_ascii "t" ++ [233]%N ++ runes_of_ascii """
-    : string_,  } ,} ,
-// c
-/// triple
-o{ options1
-    @calculatedFrom("""" ) ,	repeat i32
-body, } , @tag(1 /// triple
-) match packetx// " ++ [27880; 37322]%N ++ runes_of_ascii "
-as rootA
-{
-""" ++ [128512]%N ++ runes_of_ascii """:
-// `tick` ""quote"" 'q'
-//x
-zchar  ,
-    7 :
-    zchar  ,
-[ 0 , 42,
-""a\\"" , 0123456789	, ""it's""
-,3 //	t
-,
-""abc""	, 0123456789	]: lengthOf,
-// " ++ [27880; 37322]%N ++ runes_of_ascii "
-//x
-0
-// trailing space 
-// " ++ [27880; 37322]%N ++ runes_of_ascii "
-: _x, ""1"":
-    Header , }
-    , @rightPad
-    // c
-    ( ) repeat pack {
-match MetaDataX
-    as o { ""a\""b"" : Pad
-[ ""a\""b"" ]:A , 1
-: rootA  , }
-    , match	calculatedFrom as T/// triple
-{ 65535  : stringy , // " ++ [27880; 37322]%N ++ runes_of_ascii "
-65535 :  Packet ,
-    [
-007 , ""CRC32""
-    , 00 , 3 ,
-    65535
-,	""x y"" ,65535 ]: matchKey/// triple
-, 007
-: rootA
-,// @lengthOf(
-}, },char[] u128
-,// a // b
-}")).
-Eval vm_compute in ("<<<M3679>>>" ++ check (runes_of_ascii "root
-
-packet
-	a1
-	{uint64
-charz
-, BodyLength
-    _x	`
-` ,
-	u64 roots
-	`tab	here`, match
-
-calculatedFrom
-as calculatedFrom	{ 
-10 
-:
-leftPad
-} 
-, 
-i64_ @calculatedFrom(
-""// no comment""
-)
-,
-match 
-    // a // b
-  /// triple
-  len
-
-as	BodyLength { [""CRC32""//x
-  ,""\" ++ [233]%N ++ runes_of_ascii """
-	] :  MetaDataX  ,
-
-    } , 
-uint64
-trueish `u8 x,` // trailing space 
-
-, repeat
-	i32
-options1  , // @lengthOf(
-
-}	packet
-    pack//	t
-	  {float32
-asx  `a\`
-,int64
-charz
-//	t
-	@lengthOf(
-    repeatCount
-)
-    `" ++ [28040; 24687; 31867; 22411]%N ++ runes_of_ascii "`, 
-@lengthOf( u8x
-) BodyLength
-    @calculatedFrom( 
-""a\\""
-    ) ,
-@lengthOf( Packet
-
-) repeat
-u32
-    Pad
-,  /// triple
-  	}
-packet
-	options1  {
-	@rightPad
-
-(
-	'0' )
-	i8i8 @lengthOf(  stringy)
-    ,	int64
-	As
-
-, 
-f64
-
-    crc@lengthOf( u128)
-    ,
-rootA  @calculatedFrom(  ""1""
-)
-    `a\`
-
-    ,} packet	_x
-
-{
-
-    repeat
-T
-x_y_z
-
-// trailing space 
-  // @lengthOf(
-    `line1
-line2`
-, } root
-
-    packet  //x
-
-  Foo
-    {  @lengthOf(
-    Logon) @calculatedFrom(
-    ""{,}""
-
-    )
-
-@calculatedFrom(
-
-    ""`tick`"" 
-) match 
-roots  // packet A { u8 x, }
-  	as
-    charz 
-{	7
-:string_ 
-        //
-    // `tick` ""quote"" 'q'
-
-}
-,
-    u64// trailing space 
-    u 
-@calculatedFrom(	""\" ++ [233]%N ++ runes_of_ascii """
-)
-// trailing space 
-	// a // b
-,
-
-    @tag(	007)
-	    // packet A { u8 x, }
-	  @lengthOf(
-    zchar	)	match
-    body
-    as
-trueish {
-[
-10 ,
-""packet""  , 3
-
-,
-	0 
-,
-	00, """" ]  :repeatCount 
-    // a // b
-  ,// " ++ [128512]%N ++ runes_of_ascii " emoji
-  [ 	 // `tick` ""quote"" 'q'
-	4294967296
-] :	Logon[
-    ""CRC32""
-    ,
-
-""it's""
-	]: x_y_z
-, }
-, T
-x
-    ,  Pad
-,u8x
-    T
-`{ , }`, 
-@lengthOf(
-As ) match  o
-as
-
-repeatCount // a // b
-    {
-	[
-255	]  :
-uint8x 	 // a // b
-  	,}
-
-    ,
-u128 Foo,
-} ")).
-Eval vm_compute in ("<<<M4443>>>" ++ check (runes_of_ascii "MetaData Logon {
-    string_ MetaDataX `
-        `,
-}
-
-root packet Pad {
-    asx @lengthOf(BodyLength),
-}
-
-packet Pad {
-    @calculatedFrom(""a	b"")
-    zchar[7] x `a\`,
-    @lengthOf(msg_type)
-    int32 Logon @lengthOf(u128) `two words`,
-    @lengthOf(asx)
-    match o as asx {
-        1 : crc,
-        00 : f32a,
-    },
-    char[1] leftPad @lengthOf(string_) `
-        `,
-    f32 trueish @calculatedFrom("""") ``,
-    As,
-    x_y_z {
-        match Packet as int {
-            007 : x,
-            // packet A { u8 x, }
-            """ ++ [28040; 24687]%N ++ runes_of_ascii """ : options1,
-            ""packet"" : repeatCount,
-            ""\n"" : x,
-        },
-        char[] i8i8 @lengthOf(x_y_z) `two words`,
-        match crc as x_y_z {
-            ""CRC32"" : Z9_,
-        },
-        packetx,
-    },
-    repeat char[0] asx,
-    @calculatedFrom(""1"")
-    char[00] float,
-    repeat i32 msg_type,
-}
-
-packet x_y_z {
-    @calculatedFrom(""a\\"")
-    @calculatedFrom(""packet"")
-    uint8x @calculatedFrom(""""),
-    @lengthOf(x)
-    u8x x,
-    @calculatedFrom(""a	b"")
-    int16 pack,
-    match Pad as T {
-        [00] : leftPad,
-        ""CRC32"" : body,
-        //x
-        3 : zchar,
-        1 : u8x,
-        7 : options1,
-        4294967296 : falsey,
-    },
-}
-
-packet T {
-    zchar[65535] roots,
-    int x `crlf
-        line`,
-    @lengthOf(int)
-    charz {
-        i64_ `" ++ [28040; 24687; 31867; 22411]%N ++ runes_of_ascii "`,
-        zchar[42] len @calculatedFrom(""" ++ [233]%N ++ runes_of_ascii "t" ++ [233]%N ++ runes_of_ascii """),
-        repeat i8 o,// " ++ [27880; 37322]%N ++ runes_of_ascii "
-        char[0] options1 `doc`,
-    },
-    @lengthOf(roots)
-    string Header,
-}")).
-Eval vm_compute in ("<<<M4362>>>" ++ check (runes_of_ascii "// top
-options {
-    // c1
-    LittleEndian = false;// c5
-    FixedStringPadFromLeft = false;// c9
-    FixedStringPadChar = ' ';
-}// c14
-
-packet Fill {
-    // c17a
-    // c17b
-    uint16 Qty,
-    uint64 clOrdID,
-    repeat i64 Flags,
-}
-
-packet Ack {
-    // c31
-    zchar[7] clOrdID,// c36
-    u64 lastPx,// c39
-    char[] Note,// c42
-    repeat Fill,// c45a
-    // c45b
-    int32 count,// c48
-}
-
-// c49
-packet Quote {
-    u8 venue,// c55a
-    // c55b
-    InRef40 {
-        // c57
-        char[] Qty,// c60a
-    },
-    zchar[5] Flags,// c67a
-    @rightPad('\x00')
-    // c71
-    char[12] msgKind,
-}// c77a
-
-// c77b
-packet Logout {
-    // c80
-    InSym79 {
-        // c82
-        int32 Qty,// c85a
-        // c85b
-        Fill,
-        char[3] x,
-        // c92
-        repeat InNote29 {
-            // c95a
-            // c95b
-            i16 price,// c98a
-            // c98b
-            Ack,// c100a
-            // c100b
-            f64 x,// c103
-            zchar[8] count,// c108a
-        },// c110
-    },
-}
-
-root packet Logon {
-    zchar[1] sym,
-    u32 count,
-    u16 tag7 @lengthOf(Body),
-    match count as Body {
-        // c136
-        [122, 152] : Ack,
-        118 : Logout,
-        // c148
-        61 : Quote,
-        161 : Fill,
-        // c156
-    },// c158a
-    // c158b
-    u32 Acct @calculatedFrom(""CRC32""),
-}// c165a")).
-Eval vm_compute in ("<<<M568>>>" ++ check (runes_of_ascii "
-options {a1= 4294967296 ;
-    //	t
-    u =	"""" BodyLength =0123456789 ;
-}
-    packet float{
-    char[ 10// trailing space 
-]
-    calculatedFrom `say ""hi""`
-,}	packet  charz
-    { u
-{
-    match string_
-    as crc {
-0 : zchar//x
-4294967296:// packet A { u8 x, }
-u 255 : falsey }
-    ,len@lengthOf(
-// a // b
-// c
-asx )`tab	here`
-    ,o @calculatedFrom( ""\n"" ), },// " ++ [128512]%N ++ runes_of_ascii " emoji
-} options
-{  T = false ;}  packet
-calculatedFrom {
-    match u8x
-as leftPad { """ ++ [233]%N ++ runes_of_ascii "t" ++ [233]%N ++ runes_of_ascii """ //x
-:packetx , ""\n"" :lengthOf ,
-007 :
-    pack 007 :
-BodyLength
-,
-    ""a\\""  :
-charz}
-, @tag(
-    7 // trailing space 
-)body { repeat char[
-7 ]// packet A { u8 x, }
-_x`" ++ [28040; 24687; 31867; 22411]%N ++ runes_of_ascii "` , } ,	@tag(// " ++ [128512]%N ++ runes_of_ascii " emoji
-42 )string  tag `crlf
-line`	,  @tag( // " ++ [27880; 37322]%N ++ runes_of_ascii "
-00 )repeat char[	0  ] calculatedFrom `tab	here`, u16 Z9_ @calculatedFrom( ""{,}"" ) ,
-//x
-//x
-@calculatedFrom(
-    ""\" ++ [233]%N ++ runes_of_ascii """ )
-    match	Logon
-    // @lengthOf(
-    as Z9_ {
-[
-""1""
-    //	t
-    , // c
-""1""	] :
-    options1 } ,
-T
-    metadata ,_x {
-    // @lengthOf(
-    f32 x
-    , int64
-a1
-//x
-// " ++ [27880; 37322]%N ++ runes_of_ascii "
-@lengthOf(_x
-    )`u8 x,` , uint8x { _x	@lengthOf(
-charz ) // `tick` ""quote"" 'q'
-, int64// @lengthOf(
-trueish
-    ,  char[0	]
-// `tick` ""quote"" 'q'
-// c
-roots @calculatedFrom( ""// no comment"")
-    `crlf
-line` , u ,}
-    , } , }
-")).
-Eval vm_compute in ("<<<M3994>>>" ++ check (runes_of_ascii "options{  } packet 
-Foo 
-{  string
-	Header`doc`
-,
-
-    char[
-7 
-]
-
-    leftPad
-
-,
-
-match i64_	as
-    o
-{  10  //x
-  :	// `tick` ""quote"" 'q'
-x
-    ,
-[ ""x y""
-]
-
-:	repeatCount  // c
-,
-	0123456789//	t
-      :
-    // @lengthOf(
-
-  // `tick` ""quote"" 'q'
-roots
-, [ 
-0
-
-    ,	7  ,
-00
-,
-""" ++ [233]%N ++ runes_of_ascii "t" ++ [233]%N ++ runes_of_ascii """
-    ,
-00
-
-    ,  /// triple
-  10 
-,
-
-    ""packet"" ] :
-stringy
-,
-	    /// triple
-	[
-
-0123456789  ,""{,}""
-    ,
-"""",	""a	b""	, ""a\\""
-    ,
-""\n""	,
-	4294967296	,1	]
-:BodyLength , /// triple
-4294967296 : float 
-, }
-	, packetx
-`
-`
-	, zchar[
-7 ] Foo
-
-, 
-Logon
-,match o
-
-as
-
-    calculatedFrom
-    {
-
-3
-	:uint8x 
-  //
-    }
-
-,rootA
-
-repeatCount,
-}
-
-    root	packet
-f32a
-
-{	@lengthOf( float
-)
-
-    crc `u8 x,`//
-
-	,
-
-@calculatedFrom(""{,}""
-    ) repeat zchar[
-	3
-]
-Header``
-	,  match
-len  as	pack  {
-[""{,}""	,
-	""a\\""
-
-]	:
-uint8x
-	,
-[ ""packet""
-
-,42
-
-,
-
-    ""\n"" 
-, 
-4294967296 // c
-	,
-
-""CRC32""
-	,
-
-// `tick` ""quote"" 'q'
-	007 
-]
-:
-
-    Foo
-	,""" ++ [233]%N ++ runes_of_ascii "t" ++ [233]%N ++ runes_of_ascii """
-	// packet A { u8 x, }
-  :
-BodyLength
-
-    ,
-0123456789  :
-crc
-
-,
-	} , x As  `u8 x,` ,
-
-    float64	Pad
-    @lengthOf( repeatCount
-)
-,
-    char[ 
-00 ]	Logon
-	@lengthOf(  tag
-
-    )
-
-    ,
-    }
-")).
-Eval vm_compute in ("<<<M3937>>>" ++ check (runes_of_ascii "root packet u128 {
-    @lengthOf(T)
-    repeat Header,
-    @tag(255)
-    @tag(255)
-    //x
-    u64 crc,
-    @tag(65535)
-    @lengthOf(u128)
-    uint32 chars,
-}
-
-packet i64_ {
-    i8 string_ @calculatedFrom(""it's""),
-    @leftPad(' ')
-    repeat Pad {
-        repeat MetaDataX {
-            o packetx,
-            roots Header,
-            match falsey as roots {
-                007 : msg_type,
-                [10] : T,
-                """" : Packet,
-                42 : msg_type,
-            },
-            string string_ `tab	here`,
-        },
-        repeat float64 repeatCount `doc`,// @lengthOf(
-    },
-    match falsey as u8x {
-        ""\" ++ [233]%N ++ runes_of_ascii """ : metadata,
-        0 : repeatCount,
-        0123456789 : repeatCount,
-        ""packet"" : Foo,
-        0123456789 : tag,
-    },
-    @lengthOf(As)
-    match A as repeatCount {
-        42 : a1,
-        65535 : Packet,
-        7 : len,
-        """" : rootA,
-        """ ++ [233]%N ++ runes_of_ascii "t" ++ [233]%N ++ runes_of_ascii """ : rootA,
-    },
-    @calculatedFrom(""CRC32"")
-    repeatCount @calculatedFrom(""`tick`""),
-    f32 crc `doc`,
-    crc,
-    // c
-    // packet A { u8 x, }
-    char[] Header,
-}")).
-Eval vm_compute in ("<<<M4276>>>" ++ check (runes_of_ascii "options {
-}
-
-MetaData zchar {
-    A i64_ `crlf
-        line`,
-    char[] string_ `
-        `,
-    Packet stringy `a\`,
-    char[1] i8i8,
-    float32 options1 `{ , }`,
-}
-
-packet a1 {
-    @lengthOf(o)
-    //x
-    o {
-        calculatedFrom @calculatedFrom(""a\\""),
-    },
-    @lengthOf(a1)
-    repeat i8i8 stringy,
-    int8 pack,
-    @lengthOf(u8x)
-    string packetx @calculatedFrom(""`tick`"") ``,
-    @lengthOf(Header)
-    @tag(0123456789)
-    @calculatedFrom(""CRC32"")
-    repeat BodyLength `two words`,
-    @lengthOf(T)
-    zchar[1] repeatCount @lengthOf(o),
-    match As as options1 {
-        ""1"" : o,
-        ""a\\"" : crc,
-        [
-            0123456789, 65535, 00, ""a	b"", """ ++ [128512]%N ++ runes_of_ascii """,
-            """ ++ [128512]%N ++ runes_of_ascii """, ""1""
-        ] : x,
-        [
-            4294967296, 10, 0123456789, 42, 3,
-            ""abc"", ""\n"", """ ++ [128512]%N ++ runes_of_ascii """
-        ] : msg_type,
-    },
-    match u8x as lengthOf {
-        [""x y"", ""{,}""] : asx,
-        // `tick` ""quote"" 'q'
-        4294967296 : chars,
-        ""CRC32"" : a1,
-        ""a	b"" : metadata,
-        7 : zchar,
-    },
-}")).
-Eval vm_compute in ("<<<M529>>>" ++ check (runes_of_ascii "packet rootA { metadata { int32
-    body  `doc` ,repeat calculatedFrom u8x
-,u32 float , },
-@lengthOf(
-// @lengthOf(
-// trailing space 
-T )u8x Header,	repeat u16 Z9_ ,
-@leftPad (
-    '0'	)
-repeat Z9_ { stringy msg_type
-    `
-` ,As
-{match i8i8
-    as	chars {
-10 :len
-    ,
-    [ ""abc"", 42
-//	t
-// c
-, 7 ] :  leftPad ,42 : lengthOf , 00 : zchar ,
-    //x
-    } , i32
-    i64_ // @lengthOf(
-, repeat
-lengthOf msg_type`` //x
-,
-    }	,
-    int16 Packet @calculatedFrom( ""packet"") ,} , len @lengthOf( float
-    //
-    ) `two words`,
-@calculatedFrom( //	t
-""a\""b"" ) repeat
-pack
-,
-    @tag( 0 ) float32 tag `tab	here` ,rootA @calculatedFrom(""// no comment""
-) ,
-@lengthOf(x_y_z	)
-msg_type { match crc
-    as
-string_ { 0:	u8x , 10
-    : // " ++ [27880; 37322]%N ++ runes_of_ascii "
-crc	, ""x y"" : Pad
-    , 3: a1	,007
-    : x , [ """" ] : A },
-} , @calculatedFrom(
-    ""CRC32"" ) @rightPad (' ')
-    @tag( 10	) match zchar
-    as body {
-65535 // trailing space 
-:
-    // packet A { u8 x, }
-    tag
-    } ,
-}
-")).
-Eval vm_compute in ("<<<M208>>>" ++ check (runes_of_ascii "packet zchar{
-    uint8x { MetaDataX , match stringy as calculatedFrom { """" : options1,""// no comment""
-: //x
-u
-""\" ++ [233]%N ++ runes_of_ascii """
-:  body
-, [
-""abc""
-    , ""it's"" , // c
-007 ] : packetx
-//	t
-// @lengthOf(
-,65535:
-roots
-, } ,  zchar[	10 ]
-lengthOf`two words`  ,	} // trailing space 
-,
+    @calculatedFrom(""{,}"" ) match body as i64_{ ""x y""
+    :	pack  ,
 //
-// packet A { u8 x, }
-} root
-packet Header{repeat f32a o `two words`,
-    @lengthOf(
-    f32a ) char[	42
-]
-    uint8x ,	@tag( 42
-)
-    float@lengthOf(
-MetaDataX  ) , string T	, match _x as leftPad
-    { 0123456789 :
-    stringy, } ,  @leftPad // @lengthOf(
-( )repeat uint8x// c
-{
-string_ { char[ 255] a1 @calculatedFrom( ""abc""
-), metadata @lengthOf(	asx ),
-    } , repeat falsey /// triple
-,
-    Logon { As ,
-repeat char[]// trailing space 
-u
-    , } , },
-    @leftPad
-    (	' '
-    )
-char[ 10
-] charz
-@lengthOf(  float ), @calculatedFrom(
-    """ ++ [233]%N ++ runes_of_ascii "t" ++ [233]%N ++ runes_of_ascii """
-) i64 trueish
-    `two words`
-, } options{ options1	=7
-; u
-    // " ++ [27880; 37322]%N ++ runes_of_ascii "
-    = """" ; } 	 ")).
-Eval vm_compute in ("<<<M747>>>" ++ check (runes_of_ascii "packet u8x {@tag( 0)
-match Header as	packetx
-// " ++ [128512]%N ++ runes_of_ascii " emoji
+// @lengthOf(
+}	,
+    A
+{ i8i8 @calculatedFrom(""a	b"" ),} // c
+, @leftPad( '\x00' ) /// triple
+metadata { repeat Foo	{	Z9_
 //x
-{""\n"":	o , 0 :
-    Foo ,4294967296: rootA
-,
-    255 /// triple
-:i8i8 }
-,// `tick` ""quote"" 'q'
-repeat //	t
-uint8 stringy , chars ,
-uint64 options1 `say ""hi""`
-,@lengthOf( float )
-    string leftPad ,  x body // packet A { u8 x, }
-`line1
-line2`
-, @calculatedFrom(  ""// no comment"" ) uint16// a // b
-chars @calculatedFrom(
-""`tick`"" ) , }packet
-    Header {@calculatedFrom(
-    ""\" ++ [233]%N ++ runes_of_ascii """
-)
-zchar[ 007 ] As @lengthOf(
-    // @lengthOf(
-    Header )
-, Header
-// a // b
-//x
-@lengthOf( leftPad ) `doc` ,
-    repeat zchar	calculatedFrom ,	@lengthOf( float// `tick` ""quote"" 'q'
-) zchar[ 0123456789
-    ] trueish`` /// triple
-,
-    match x as
-string_ {
-[
-255] : A ,
-""abc"" : Packet , [//x
-""`tick`""
-    ,10
-    ]
-: Pad,
-    }
-,}  packet len {// " ++ [128512]%N ++ runes_of_ascii " emoji
-i8i8 body , } MetaData x
-    {float32 Header , uint8 A ,i8i8
-o , }
-
-")).
-Eval vm_compute in ("<<<M884>>>" ++ check (runes_of_ascii "packet Packet
-{asx
-    //	t
-    @lengthOf(metadata)  `line1
-line2`
-// " ++ [128512]%N ++ runes_of_ascii " emoji
-// packet A { u8 x, }
-,
-@tag( 0123456789) repeat char tag,
-BodyLength @calculatedFrom( ""`tick`""
-)
+// `tick` ""quote"" 'q'
+trueish , } , }
 , @calculatedFrom(
-""\" ++ [233]%N ++ runes_of_ascii """ )
-tag @calculatedFrom(// @lengthOf(
-""" ++ [233]%N ++ runes_of_ascii "t" ++ [233]%N ++ runes_of_ascii """
-    )	,@leftPad
-( ) match o as T
-    {	""CRC32"":metadata [ 7, // trailing space 
-""CRC32"", ""CRC32""
-, ""a\\"" , 0123456789
-]
-:
-i8i8 4294967296
-:
-    o, [65535 ] : leftPad, 00:
-charz
-    , } , string_ @calculatedFrom( ""\n"" ) `u8 x,` , }
-root packet Foo // `tick` ""quote"" 'q'
-{ @rightPad(
-    '0'
-    ) repeat msg_type string_ , } root packet Z9_{ @calculatedFrom(
-    // c
-    ""1"")string
-    A //x
-, repeat x zchar,  @tag( 1
-    ) @tag( 0 ) i64_
-    float
-`tab	here` , repeat //
-u8 _x
-    `` , lengthOf
-@calculatedFrom(
-    ""`tick`"")
-//x
-// trailing space 
-,
-    }
-")).
-Eval vm_compute in ("<<<M4505>>>" ++ check (runes_of_ascii "// a // b
-packet rootA {
-    @lengthOf(Packet)
-    Logon {
-        char[7] T `
-        `,
-    },
-    @lengthOf(rootA)
-    repeat zchar[00] Header,
-    // c
-    // packet A { u8 x, }
-    repeat i8i8 {
-        match Foo as i8i8 {
-            [
-                4294967296, 1, 7, 42, 255,
-                007, ""\" ++ [233]%N ++ runes_of_ascii """, ""\n""
-            ] : options1,
-            4294967296 : pack,
-            """" : u8x,
-            [65535, ""\n""] : pack,
-            ""`tick`"" : Z9_,
-        },
-        float64 stringy,
-    },
-    @calculatedFrom(""`tick`"")
-    x {
-        A @lengthOf(crc),
-        char[00] roots,
-    },
-    @lengthOf(int)
-    @lengthOf(u8x)
-    @lengthOf(a1)
-    uint16 trueish @calculatedFrom(""a\\""),
-    Header @lengthOf(MetaDataX) `say ""hi""`,
-    roots @lengthOf(a1),
-}")).
-Eval vm_compute in ("<<<M264>>>" ++ check (runes_of_ascii "
-root packet u128 { @calculatedFrom( ""// no comment"" ) @tag(	10//	t
-) @calculatedFrom( ""packet"" ) BodyLength ``
-    , char BodyLength `two words`	, repeat uint32 f32a // trailing space 
-, crc {	repeat
-repeatCount Packet , MetaDataX@lengthOf(
-    chars
-),
-options1 _x ,
-repeat float64 T//x
-,} ,@tag( 3 )
-    @leftPad
-( '\x00') @rightPad
-(
-// @lengthOf(
-/// triple
-)
-    match string_ as MetaDataX { ""packet"" : float ,[
-    ""abc"" // @lengthOf(
-, """"
-    // packet A { u8 x, }
-    ,	3
-,
-    //x
-    65535 ,
-    ""a	b""
-,//	t
-42
-    ,
-    1 ,
-    ""packet"" ]:
-i64_
-// `tick` ""quote"" 'q'
-/// triple
-,
 // " ++ [27880; 37322]%N ++ runes_of_ascii "
-// trailing space 
-7 :lengthOf 0:
-len
-// trailing space 
+/// triple
+""" ++ [233]%N ++ runes_of_ascii "t" ++ [233]%N ++ runes_of_ascii """ // " ++ [128512]%N ++ runes_of_ascii " emoji
+)
+@lengthOf( lengthOf	)
+    // packet A { u8 x, }
+    @rightPad  (
+    '\x00' // " ++ [128512]%N ++ runes_of_ascii " emoji
+)
+repeat
+    char[ 255] // c
+string_`a\` ,
+    }
+MetaData
+    trueish {o
+T	,	char[ 1 ] BodyLength`{ , }` , } packet Logon
+{ @calculatedFrom(""a\\"") // `tick` ""quote"" 'q'
+match roots  as
+As { 255:stringy , [ // packet A { u8 x, }
+10 , """" , """ ++ [233]%N ++ runes_of_ascii "t" ++ [233]%N ++ runes_of_ascii """
+, ""a\""b"" ,
+    ""\" ++ [233]%N ++ runes_of_ascii """ ]
+:  _x  , }
+, }	packet
+    i64_	{ // a // b
+@tag( 007
+)float32	metadata`two words`
+// @lengthOf(
+// `tick` ""quote"" 'q'
+,	match Header as matchKey{	""`tick`"" : Pad ,[""a\""b"" ,""a	b""
+    , 65535
+// packet A { u8 x, }
 // packet A { u8 x, }
 ,
-10 :  len , [ //	t
-0
-] : A
-    //	t
-    , }, }")).
-Eval vm_compute in ("<<<M892>>>" ++ check (runes_of_ascii "
-MetaData // " ++ [128512]%N ++ runes_of_ascii " emoji
-tag {
-char[] float,
-lengthOf
-    string_
-,
-    i32
-// c
-// a // b
-Foo , i64
-Logon
-    `// not a comment` , char[
-7]
-i8i8
-,
-// `tick` ""quote"" 'q'
-// c
-u16 pack, } options
-{ Packet=""x y"" u128
-    =
-7 u= u32 ; } // " ++ [128512]%N ++ runes_of_ascii " emoji
-packet
-    chars {
-    @tag( 0123456789) @calculatedFrom( ""x y"" )
-@rightPad (
-'0' ) f32 Pad @lengthOf( crc
-    // c
-    ) ,@tag( // trailing space 
-7
-) i8
-    o @calculatedFrom(
-""1""
-)
-,
-    @rightPad ( ' ' ) calculatedFrom {
-stringy float, // c
-repeat Packet roots
-`doc` ,repeat matchKey asx , repeat rootA roots  , } ,
-    @tag( 42 )@leftPad
-( '\x00' ) /// triple
-@calculatedFrom(""a	b"" )
-string
-    o @lengthOf( roots )	, // " ++ [128512]%N ++ runes_of_ascii " emoji
-}
-")).
-Eval vm_compute in ("<<<M1160>>>" ++ check (runes_of_ascii "
-root
-    packet
-i8i8  {
-@tag( 3)  @tag( 3
-) match u128 as
-f32a
-    // packet A { u8 x, }
-    {//	t
-[
-0123456789
-    , ""a\""b"" ,
-0123456789 ,
-42 , ""// no comment"" ]
-    :
-    Foo }	, } packet Z9_ {@leftPad
-(
-'0' // packet A { u8 x, }
-)	char[] Pad @lengthOf(Z9_ ) `` , u8x u	`doc`
-,  @calculatedFrom(
-/// triple
-// @lengthOf(
-""{,}""
-    )falsey { u8x f32a , }
-,repeat	i8 metadata ,
-repeat i64
-i8i8, zchar[ 1]u
-,  string	crc `crlf
-line` ,// " ++ [128512]%N ++ runes_of_ascii " emoji
-match i8i8 as
-    matchKey { [ 0
-,	0123456789  ] : uint8x
-    ,
-},
-    metadata @calculatedFrom( ""CRC32"") `
-` ,	@lengthOf(_x ) @tag(	7 )
-    @tag( 00) repeat Packet matchKey`it's` , // " ++ [128512]%N ++ runes_of_ascii " emoji
-}
-")).
-Eval vm_compute in ("<<<M1268>>>" ++ check (runes_of_ascii "  packet	Packet{ } root
-packet pack { @calculatedFrom( ""CRC32"")string
-pack`two words`
-    // " ++ [128512]%N ++ runes_of_ascii " emoji
-    , @lengthOf(Pad
-    )
-@lengthOf(
-rootA ) i16 A`doc`, } options {asx =00;
-string_= 7 ;
-x_y_z= 0123456789; } packet uint8x { int32
-trueish @lengthOf( roots ) `say ""hi""` ,
-    @tag( 1 ) @lengthOf(	a1 )
-match
-f32a as
-MetaDataX {
-/// triple
-// trailing space 
-7 :	pack 65535 :
-//
-// `tick` ""quote"" 'q'
-calculatedFrom
-// a // b
-// " ++ [27880; 37322]%N ++ runes_of_ascii "
-, [
-    3,""// no comment""
-    ,  1 ,
-/// triple
-/// triple
-0123456789 ]:
-    // c
-    Z9_ ,4294967296
-: a1 ,007:int """ ++ [128512]%N ++ runes_of_ascii """ : o
-,
-}
-    ,	repeat calculatedFrom a1 `crlf
-line`
-, }
-")).
-Eval vm_compute in ("<<<M402>>>" ++ check (runes_of_ascii "options { // @lengthOf(
-} options{metadata = ' ' }packet
-    Packet
-{ @leftPad (
-    ' ' ) pack @calculatedFrom( ""`tick`"" ),}
-packet// " ++ [27880; 37322]%N ++ runes_of_ascii "
-T
-{@tag( 255
-)@tag(// `tick` ""quote"" 'q'
-7 )
-@calculatedFrom( ""CRC32"" ) metadata	@calculatedFrom( """" )// trailing space 
-, repeat string falsey `` , match crc as roots { 255
-    : As ,
-    42 : MetaDataX }, // @lengthOf(
-@tag( 0 )@calculatedFrom(
-    //	t
-    ""it's"")@calculatedFrom(""" ++ [233]%N ++ runes_of_ascii "t" ++ [233]%N ++ runes_of_ascii """) match string_ as a1
-{ """ ++ [233]%N ++ runes_of_ascii "t" ++ [233]%N ++ runes_of_ascii """ : body//	t
-, 7
-    : Packet,
+10  ,""1""
+,  ""a\""b"" , ""abc"",
+""`tick`""] : rootA	,[255 , ""a\""b"" ]:// trailing space 
+body ,
     // `tick` ""quote"" 'q'
-    } //
-, string options1,
-calculatedFrom MetaDataX
-,zchar[42]	i8i8
-    `` , }")).
-Eval vm_compute in ("<<<M3851>>>" ++ check (runes_of_ascii "options {
-    o = 007;
+    ""\n""	: stringy
+    ,
+    [ 0  , ""\" ++ [233]%N ++ runes_of_ascii """ ,	""\" ++ [233]%N ++ runes_of_ascii """ , 65535 , 3
+    ,0 ,""1"" ,
+//x
+// trailing space 
+42 ]
+:Z9_,
+// a // b
+// @lengthOf(
+""a\""b"" //
+: string_ , } ,len
+MetaDataX ,u @lengthOf(calculatedFrom  ) `a\` , Foo {
+    match crc
+// @lengthOf(
+// `tick` ""quote"" 'q'
+as
+    // trailing space 
+    asx // " ++ [27880; 37322]%N ++ runes_of_ascii "
+{
+""1"":leftPad
+    ,
+""" ++ [128512]%N ++ runes_of_ascii """
+: leftPad
+[ ""{,}""  ] : string_
+, ""CRC32"":
+crc, 42 :u
+    }
+    ,
+    match asx as u {
+    [4294967296 ,1	]:	zchar ,//x
+} ,	string body ,
+    // " ++ [128512]%N ++ runes_of_ascii " emoji
+    lengthOf asx
+    `two words`
+    // trailing space 
+    , } ,charz @calculatedFrom( ""abc"" ) // trailing space 
+`{ , }` ,char[
+// a // b
+//x
+0123456789]
+    // a // b
+    o @lengthOf( packetx )
+    // " ++ [128512]%N ++ runes_of_ascii " emoji
+    , }")).
+Eval vm_compute in ("<<<M3741>>>" ++ check (runes_of_ascii "packet uint8x {
+}
+
+MetaData trueish {
+}
+
+root packet tag {
+    @calculatedFrom(""x y"")
+    @tag(255)
+    @calculatedFrom(""a	b"")
+    string_ Packet,
+    repeat u8 roots `" ++ [28040; 24687; 31867; 22411]%N ++ runes_of_ascii "`,
+    roots @calculatedFrom(""it's""),
+    rootA {
+        Foo @calculatedFrom(""x y"") `{ , }`,
+    },//
+    match MetaDataX as x_y_z {
+        3 : trueish,
+        // a // b
+        0 : zchar,
+        /// triple
+        """ ++ [233]%N ++ runes_of_ascii "t" ++ [233]%N ++ runes_of_ascii """ : crc,
+    },
+    roots {
+        repeat zchar[10] A,
+    },
+    @leftPad('\x00')
+    repeat string lengthOf,
+    @tag(0)
+    u128,
+}
+
+packet body {
+    len `crlf
+        line`,
+    @lengthOf(Pad)
+    @calculatedFrom(""\" ++ [233]%N ++ runes_of_ascii """)
+    @leftPad(' ')
+    repeat float {
+        zchar[1] options1,
+        int32 metadata @lengthOf(f32a),
+    },
+    match Packet as _x {
+        255 : Header,
+        007 : packetx,
+        [42, 255] : msg_type,
+        // " ++ [128512]%N ++ runes_of_ascii " emoji
+        00 : lengthOf,
+        [3, 65535] : string_,
+        ""abc"" : uint8x,
+    },
+    repeat x_y_z {
+        Foo {
+            repeat A calculatedFrom,
+            Z9_ @calculatedFrom(""it's"") `{ , }`,
+            repeat u repeatCount,
+            repeat u16 u8x `// not a comment`,
+        },
+        u32 lengthOf `
+                `,
+        int8 rootA,
+        repeat a1 {
+            match options1 as repeatCount {
+                [255, 007] : packetx,
+            },
+            As {
+                repeatCount u,
+                zchar[255] BodyLength `{ , }`,
+            },
+        },
+    },
+    char[4294967296] A `" ++ [233]%N ++ runes_of_ascii "`,
+    u8 int,
+    repeat Packet {
+        x calculatedFrom `" ++ [233]%N ++ runes_of_ascii "`,
+    },
+    A,
+    Foo @lengthOf(matchKey) `" ++ [233]%N ++ runes_of_ascii "`,
+    // `tick` ""quote"" 'q'
+    // a // b
+    uint32 options1,
+}
+
+packet calculatedFrom {
+}")).
+Eval vm_compute in ("<<<M4203>>>" ++ check (runes_of_ascii "options {
+    o = ""it's"";
+}
+
+/// triple
+/// triple
+packet calculatedFrom {
+    int32 Header @calculatedFrom(""x y"") `" ++ [28040; 24687; 31867; 22411]%N ++ runes_of_ascii "`,
+    @tag(0)
+    @lengthOf(f32a)
+    match i64_ as T {
+        255 : Foo,
+        1 : T,
+        ""a	b"" : Header,
+        1 : x,
+    },
 }
 
 root packet options1 {
-    @rightPad()
-    zchar[65535] x,
-    @lengthOf(lengthOf)
-    x metadata,// `tick` ""quote"" 'q'
-    @tag(007)
-    int64 uint8x @lengthOf(i64_) `a\`,
-    @calculatedFrom(""1"")
-    @tag(007)
-    repeat u32 metadata,// a // b
-    match As as rootA {
-        ""a\""b"" : As,
+    @leftPad(' ')
+    match uint8x as lengthOf {
+        ""`tick`"" : x_y_z,
     },
-    @calculatedFrom(""CRC32"")
-    uint16 As @calculatedFrom(""a	b"") `" ++ [28040; 24687; 31867; 22411]%N ++ runes_of_ascii "`,
-    @lengthOf(A)
-    u int `" ++ [233]%N ++ runes_of_ascii "`,
-    i64_ MetaDataX,
-    leftPad,
-    @lengthOf(_x)
-    body `two words`,
-}
-
-MetaData repeatCount {
-    charz packetx,
-    float32 f32a,
-}")).
-Eval vm_compute in ("<<<M310>>>" ++ check (runes_of_ascii "packet  T{ i8 MetaDataX	,
-    repeat x
-    {
-int32 lengthOf ,
-char[ 007 ]repeatCount
-`" ++ [233]%N ++ runes_of_ascii "`
-, string // " ++ [27880; 37322]%N ++ runes_of_ascii "
-Header @lengthOf(
-    len ),	}
-,	@rightPad (
-' '
-    ) @tag(	3  )
-@tag(
-00 ) char[ 00 ]rootA	, f64 string_ , @calculatedFrom( ""it's""
-// " ++ [27880; 37322]%N ++ runes_of_ascii "
-//
-) char[]falsey ``	,
-repeat
-    a1 {	i64_ u128 ,
-    zchar[
-4294967296 ]
-i8i8 ,
-Logon @lengthOf( packetx
-    // trailing space 
-    ) ,} , lengthOf float
-, @calculatedFrom( ""{,}""
-    ) u@lengthOf( rootA
-) `say ""hi""`
-//
-//x
-,	zchar[
-    //	t
-    10
-    ] metadata `` ,}
-options { } //	t")).
-Eval vm_compute in ("<<<M1032>>>" ++ check (runes_of_ascii "MetaData  lengthOf
-{
-}	root packet //x
-falsey
-// " ++ [128512]%N ++ runes_of_ascii " emoji
-//x
-{ Pad // a // b
-{
-zchar[ 1
-] Z9_ , msg_type
-    x_y_z , match u8x as trueish {
-    """ ++ [28040; 24687]%N ++ runes_of_ascii """
-:	asx,} , }	, // `tick` ""quote"" 'q'
-@lengthOf( rootA ) match zchar as int{
-""`tick`"" :
-    len , ""{,}"" : MetaDataX ,}	,
-i64 rootA
-    //x
-    `" ++ [28040; 24687; 31867; 22411]%N ++ runes_of_ascii "` ,
-@calculatedFrom( ""it's"" )repeat
-    /// triple
-    metadata
-    ,
-    T @lengthOf( u128 ) , uint64 Pad , // " ++ [27880; 37322]%N ++ runes_of_ascii "
-falsey x ,	int16	leftPad
-    , //	t
-falsey  @lengthOf( matchKey), zchar[ 255 ] u128`u8 x,` ,
-}")).
-Eval vm_compute in ("<<<M1043>>>" ++ check (runes_of_ascii "options {
-    } root
-    packet u8x { options1 { Header @lengthOf( x_y_z
-) , u16  f32a ,} , zchar[ 4294967296 ]leftPad
-    , repeat char[
-    007 ]//	t
-trueish, int
-@calculatedFrom( """ ++ [28040; 24687]%N ++ runes_of_ascii """ )
-    // c
-    ,
-    match
-    i64_  as chars{""" ++ [128512]%N ++ runes_of_ascii """	:// a // b
-Logon, 42 : matchKey
-    65535 :	u , [ 4294967296
-,
-65535
-] :As ,} ,
-@rightPad // a // b
-( '\x00')
-    @tag(
-42 )
-    // packet A { u8 x, }
-    i32 Pad// " ++ [128512]%N ++ runes_of_ascii " emoji
-`two words`
-, // c
-@tag(
-    // c
-    00 )
-    f32a`tab	here` ,
-    }
-")).
-Eval vm_compute in ("<<<M4143>>>" ++ check (runes_of_ascii "root packet o {
-    @leftPad('0')
-    repeat uint16 o,// `tick` ""quote"" 'q'
-    @tag(1)
-    @tag(65535)
-    u32 options1,
-    @lengthOf(i8i8)
-    @lengthOf(int)
-    @leftPad()
-    char[42] len @calculatedFrom(""packet""),
-    u32 Foo @calculatedFrom(""a\\""),
-}
-
-packet a1 {
-    @lengthOf(A)
-    Foo MetaDataX `it's`,
-    Z9_ metadata `" ++ [28040; 24687; 31867; 22411]%N ++ runes_of_ascii "`,
-    match MetaDataX as falsey {
-        [42] : body,
-        // " ++ [128512]%N ++ runes_of_ascii " emoji
-        [4294967296, ""packet""] : A,
-    },
-    Z9_,
-}")).
-Eval vm_compute in ("<<<M520>>>" ++ check (runes_of_ascii "
-packet o {repeat	MetaDataX ,uint64 f32a /// triple
-`" ++ [233]%N ++ runes_of_ascii "`
-,f32 packetx `doc`	, leftPad { repeat len x ,
-    zchar[ 0123456789
-    // packet A { u8 x, }
-    ] tag @lengthOf(MetaDataX )
-    , chars{ zchar[
-// " ++ [27880; 37322]%N ++ runes_of_ascii "
-// `tick` ""quote"" 'q'
-65535]
-u8x `" ++ [28040; 24687; 31867; 22411]%N ++ runes_of_ascii "`, u16 BodyLength
-@calculatedFrom( ""`tick`""
-) `line1
-line2`
-, char[]
-stringy , repeat i64_ charz `crlf
-line` , // trailing space 
-}
-    // packet A { u8 x, }
-    ,	f32
-msg_type , } ,x`` ,
-    }
-")).
-Eval vm_compute in ("<<<M851>>>" ++ check (runes_of_ascii "options {
-_x
-    =	""`tick`"";
-    body = 65535 packetx=int8
-; metadata =0123456789
-    ; }
-packet matchKey {
-@tag(
-//	t
-// c
-4294967296 ) match leftPad
-as T  { ""a\""b"" //
-:metadata // " ++ [128512]%N ++ runes_of_ascii " emoji
-, [ 42 , 007 , 0 ,
-00  ,
-// trailing space 
-// @lengthOf(
-7 ,	""a\\""
-,
-// c
-//	t
-""1"" ]
-    :metadata
-,
-[	"""" , ""a	b"" ,
-""CRC32""
-, 255 ,
-    ""a	b"" ]
-    : // c
-asx
-3 :
-_x , 65535 // @lengthOf(
-: _x , ""\n"" :
-Logon ,} ,
-    } options { }")).
-Eval vm_compute in ("<<<M3680>>>" ++ check (runes_of_ascii "
-packet
-
-    lengthOf { @lengthOf(
-
-zchar	//x
-
-) char[]	// trailing space 
-
-metadata,
-@tag( 
-10
-) string  leftPad
-
-    ,
-@lengthOf( i8i8
-)	//
-
-@leftPad  
-      //x
-	('\x00')
-
-repeat
-	Packet
-`a\`
-
-    , options1
-    { float @calculatedFrom(
-""it's""
-
-)
-	, repeat
-
-    calculatedFrom
-	i64_ ,
-
-    }, uint8
-	A  @lengthOf(
-leftPad)
-
-`two words`
-    ,	}MetaData
-repeatCount { } MetaData	u8x	{
-	}
-
-")).
-Eval vm_compute in ("<<<M1347>>>" ++ check (runes_of_ascii "options {	x=
-    ""// no comment"" }	packet trueish { @lengthOf(
-_x )Header // " ++ [128512]%N ++ runes_of_ascii " emoji
-{
-char[]
-    Pad @calculatedFrom( """ ++ [28040; 24687]%N ++ runes_of_ascii """ )  ,  float64 msg_type , }	,repeat string
-    packetx `u8 x,`, match Header
-    as  charz
-    {
-    65535: pack
-    ,} // " ++ [128512]%N ++ runes_of_ascii " emoji
-, } packet float { } root packet A { @calculatedFrom(	""x y"" )// @lengthOf(
-string
-// " ++ [128512]%N ++ runes_of_ascii " emoji
-// " ++ [128512]%N ++ runes_of_ascii " emoji
-len @lengthOf( metadata
-)
-, }")).
-Eval vm_compute in ("<<<M3523>>>" ++ check (runes_of_ascii "// top
-packet
-    // c0
-float // c1a
-  // c1b
-{ // c2a
-  // c2b
-repeat // c3
-i8i8 MetaDataX // c5
-`it's` // c6
-, rootA // c8
-, // c9a
-  // c9b
-repeat // c10
-int8 // c11
-int // c12
-, match // c14
-repeatCount // c15
-as // c16a
-  // c16b
-x_y_z {
-    // c18
-""{,}"" // c19a
-  // c19b
-: // c20
-Logon // c21
-, // c22a
-  // c22b
-} // c23
-, // c24a
-  // c24b
-} // c25a
-  // c25b
-")).
-Eval vm_compute in ("<<<M1311>>>" ++ check (runes_of_ascii "root packet Header {
-    @lengthOf( stringy ) calculatedFrom @lengthOf(  chars  ) , char[ 255
-    ]
-    // `tick` ""quote"" 'q'
-    metadata``	, u8 MetaDataX `crlf
-line`
-,} options
-{ } options
-{uint8x = 42 ; T
-    = i32;
-    calculatedFrom // `tick` ""quote"" 'q'
-=
-""// no comment""	;
-    u8x =
-0
-    }
-    root packet roots {repeat i64 falsey //x
-,
-}")).
-Eval vm_compute in ("<<<M357>>>" ++ check (runes_of_ascii "options
-{
-// @lengthOf(
-// " ++ [128512]%N ++ runes_of_ascii " emoji
-x = 10//
-; x_y_z//
-=
-    true	;
-Logon =
-    i32 T =
-    0 }
-MetaData
-f32a	{ zchar len,
-    }
-    options {string_
-// c
-//
-= zchar[
-007 ] ;
-x_y_z = '0'
-    ;
-}MetaData msg_type // " ++ [27880; 37322]%N ++ runes_of_ascii "
-{ lengthOf msg_type `two words`
-    ,	i64 crc , packetx  zchar
-`// not a comment`
-, string// c
-falsey `tab	here` , }
-")).
-Eval vm_compute in ("<<<M517>>>" ++ check (runes_of_ascii "root
-packet Header {@calculatedFrom(
-""a\""b"" ) o MetaDataX
-`{ , }`	, float  , repeat u8
-    string_ , repeat a1 {
-    repeat
-zchar[ 3 /// triple
-] a1 , repeat  Foo// " ++ [27880; 37322]%N ++ runes_of_ascii "
-u ,} ,
-} MetaData uint8x { } MetaData
-    int
-    {
-    zchar[ 4294967296 ]roots
-,
-}
-MetaData i64_ { zchar[/// triple
-1
-]
-    falsey `// not a comment` , }
-")).
-Eval vm_compute in ("<<<M2021>>>" ++ check (runes_of_ascii "MetaData
-    u { }  options {
-// c
-// @lengthOf(
-float = int8 ;rootA =false ; As =	int16 // `tick` ""quote"" 'q'
-repeatCount
-    // trailing space 
-    =
-    int16
-; u8x =
-    //	t
-    '\x00' ; } options	{
-    repeatCount
-= 0
-u128
-    //
-    = false false ; i64_
-// trailing space 
-// `tick` ""quote"" 'q'
-= '0' ; //	t
-}
-")).
-Eval vm_compute in ("<<<M1871>>>" ++ check (runes_of_ascii "MetaData
-    u { } }  options {
-// c
-// @lengthOf(
-float = int8 ;rootA =false ; As =	int16 // `tick` ""quote"" 'q'
-repeatCount
-    // trailing space 
-    =
-    int16
-; u8x =
-    //	t
-    '\x00' ; } options	{
-    repeatCount
-= 0
-u128
-    //
-    = false ; i64_
-// trailing space 
-// `tick` ""quote"" 'q'
-= '0' ; //	t
-}
-")).
-Eval vm_compute in ("<<<M987>>>" ++ check (runes_of_ascii "options
-{ // a // b
-Header //
-=
-""// no comment""As
-    = ""`tick`""Header
-    = f32// packet A { u8 x, }
-; leftPad
-=
-10	o =
-    '\x00'
-    }// " ++ [128512]%N ++ runes_of_ascii " emoji
-packet metadata
-//x
-/// triple
-{ @rightPad
-    ('0') @leftPad
-// c
-// trailing space 
-(
-'\x00' )
-    @rightPad ( )
-    string string_`say ""hi""`,
-    } options  {
-}")).
-Eval vm_compute in ("<<<M1937>>>" ++ check (runes_of_ascii "MetaData
-    u { }  options {
-// c
-// @lengthOf(
-float = int8 ;rootA =false ; As =	repeatCount // `tick` ""quote"" 'q'
-int16
-    // trailing space 
-    =
-    int16
-; u8x =
-    //	t
-    '\x00' ; } options	{
-    repeatCount
-= 0
-u128
-    //
-    = false ; i64_
-// trailing space 
-// `tick` ""quote"" 'q'
-= '0' ; //	t
-}
-")).
-Eval vm_compute in ("<<<M1880>>>" ++ check (runes_of_ascii "MetaData
-    u { }  options 
-// c
-// @lengthOf(
-float = int8 ;rootA =false ; As =	int16 // `tick` ""quote"" 'q'
-repeatCount
-    // trailing space 
-    =
-    int16
-; u8x =
-    //	t
-    '\x00' ; } options	{
-    repeatCount
-= 0
-u128
-    //
-    = false ; i64_
-// trailing space 
-// `tick` ""quote"" 'q'
-= '0' ; //	t
-}
-")).
-Eval vm_compute in ("<<<M1229>>>" ++ check (runes_of_ascii "packet leftPad { repeat string x	,float matchKey  `u8 x,` ,	repeat zchar[1 ]  u8x `doc` , @leftPad
-( ' ' ) i8i8 @lengthOf(
-rootA )// c
-,
-//	t
-// trailing space 
-int8 //
-x `doc` ,
-// c
-// @lengthOf(
-@tag( 1) @leftPad (
-'\x00' ) @lengthOf( // packet A { u8 x, }
-_x
-)
-char[] x @calculatedFrom(""""
-    )
-    ,	}
-")).
-Eval vm_compute in ("<<<M3787>>>" ++ check (runes_of_ascii "packet i64_ {
-    Z9_ @lengthOf(charz) `doc`,
-    Pad {
-        body @lengthOf(string_) `say ""hi""`,
-        uint64 metadata @lengthOf(Logon) `say ""hi""`,
-        zchar[3] f32a `{ , }`,
-        repeat uint8 leftPad,
-    },
-    char[] _x @lengthOf(As) `
+    @calculatedFrom(""a\""b"")
+    repeat body `
     `,
-    char[65535] matchKey `// not a comment`,
-}")).
-Eval vm_compute in ("<<<M4403>>>" ++ check (runes_of_ascii "options {
-    LittleEndian = true;
-    StringPrefixLenType = u8;
-    ArrayPrefixLenType = u8;
+    char[10] float,
+    match stringy as repeatCount {
+        [42, ""`tick`""] : float,
+        //	t
+        ""abc"" : matchKey,
+        // a // b
+        7 : As,
+        255 : pack,
+        ""{,}"" : len,
+        3 : metadata,
+    },
+    char[3] trueish @calculatedFrom(""CRC32""),
+    repeat charz {
+        match Pad as Z9_ {
+            ""packet"" : f32a,
+            ""{,}"" : f32a,
+            7 : _x,
+            00 : repeatCount,
+            4294967296 : asx,
+            ""CRC32"" : u128,
+            //x
+        },
+        char[42] crc `two words`,
+        // @lengthOf(
+        //	t
+        repeat Foo `doc`,
+    },
 }
 
-packet Ack {
+options {
+    falsey = false;// trailing space 
+    Header = true;// `tick` ""quote"" 'q'
+    packetx = u64;
+    calculatedFrom = ""\n"";
 }
 
-root packet Quote {
-    Ack,
-    InSym94 {
-        repeat Ack,
-    },
-    u16 msgKind,
-    u16 OrderId @lengthOf(Body),
-    match msgKind as Body {
-        [110, 48] : Ack,
-    },
+packet body {
+    @tag(42)
+    repeat i16 u128 `// not a comment`,
+    @tag(0)
+    @tag(0123456789)
+    @calculatedFrom(""\n"")
+    zchar[255] x_y_z @lengthOf(stringy),
+    f32a @lengthOf(Logon),
+    repeat zchar[10] _x,
+    float64 charz ``,
+    Pad @lengthOf(u),
+    body ``,
 }")).
-Eval vm_compute in ("<<<M1020>>>" ++ check (runes_of_ascii "root
-packet BodyLength { match tag as
-float  {10 ://x
-a1, }
-,char[255 ] Z9_	`" ++ [28040; 24687; 31867; 22411]%N ++ runes_of_ascii "`
-    , // @lengthOf(
-@calculatedFrom( ""packet""	) int64 packetx @calculatedFrom( ""{,}"" // @lengthOf(
-)
-`doc`	, }packet
-    x
-{	} packet
-    roots
+Eval vm_compute in ("<<<M878>>>" ++ check (runes_of_ascii "root packet a1
+{ uint64 body , @lengthOf(
+rootA )
+char[ 1
+    ] zchar //
+, BodyLength // @lengthOf(
+,
+string_
+, char[] float
+@lengthOf(lengthOf  ) , //
+uint32 asx`" ++ [28040; 24687; 31867; 22411]%N ++ runes_of_ascii "` , char[]	uint8x @calculatedFrom( ""abc""
+    )
+, @tag( 255 )@calculatedFrom( ""a\\"" )zchar[
+// a // b
+// @lengthOf(
+3 ]
+    options1 ,
+    } packet charz { @rightPad	( ' ' ) matchKey @lengthOf(u) `u8 x,` // @lengthOf(
+,@lengthOf(len) @lengthOf(falsey)
+    u @calculatedFrom( ""a\\"" ), match i8i8 as
+    Packet {
+    [""a	b"" ]
+: roots // `tick` ""quote"" 'q'
+,
+    ""abc"":
+    // trailing space 
+    trueish	, [""a\\"",
+    65535 ] // packet A { u8 x, }
+:
+    asx
+0123456789:// " ++ [27880; 37322]%N ++ runes_of_ascii "
+a1	, 1
+// packet A { u8 x, }
+//
+:
+    i64_ } ,  match len as Header {	[
+    0
+    , 0123456789 , 7 ,0 , ""\n""
+    ,""a\\""
+// a // b
+//
+]:
+o
+    , ""x y""
+    // `tick` ""quote"" 'q'
+    :
+    crc [ 3 ,""\" ++ [233]%N ++ runes_of_ascii """  ]
+    : lengthOf//
+,  [10,""x y"" ] :
+    u8x
+1
+:Packet /// triple
+, 007 :
+    Z9_ ,
+} , @calculatedFrom(
+""packet""
+    ) @tag(65535) repeat Pad rootA , @tag(
+4294967296  )@lengthOf(stringy ) crc //
+@lengthOf( uint8x ) `" ++ [28040; 24687; 31867; 22411]%N ++ runes_of_ascii "` , }
+    // @lengthOf(
+    MetaData u8x { len
+calculatedFrom	, // packet A { u8 x, }
+u16 asx , } MetaData Logon
+{ u16 chars  `` ,
+A matchKey `a\`,char[007 ]Header , len uint8x,
+    A Packet `line1
+line2`
+//	t
+//x
+,
+string trueish
+    `u8 x,` ,	}
+")).
+Eval vm_compute in ("<<<M900>>>" ++ check (runes_of_ascii "options{ x_y_z
+=	""" ++ [128512]%N ++ runes_of_ascii """ ;
+BodyLength
+= 0 a1=""a\\"" ;trueish =
+    ""{,}"" ;	} packet	crc { @calculatedFrom( ""CRC32""  ) char[]
+    u8x @lengthOf( lengthOf )// " ++ [27880; 37322]%N ++ runes_of_ascii "
+`line1
+line2` ,
+Z9_ int, repeat
+    float
+    // a // b
+    {char[ 00	]
+i64_  `` , // c
+}
+, body
+@lengthOf( stringy) // packet A { u8 x, }
+`// not a comment`
+    ,	} MetaData
+u128 { char// " ++ [128512]%N ++ runes_of_ascii " emoji
+charz , float64
+msg_type	`tab	here`
+    ,Logon
+stringy `// not a comment` ,	u64 lengthOf ,chars
+u8x ,
+    string_ crc , } root packet
+zchar { @calculatedFrom(""" ++ [28040; 24687]%N ++ runes_of_ascii """ ) @tag(
+10
+)float32 len
+    , } packet calculatedFrom{	repeat
+    // " ++ [128512]%N ++ runes_of_ascii " emoji
+    int8 zchar, @lengthOf(
+    asx ) lengthOf
+    @lengthOf(
+u ) ,	Header
+@lengthOf( rootA )
+`it's`  ,@tag( 65535 )  match u8x as
+Header { """ ++ [233]%N ++ runes_of_ascii "t" ++ [233]%N ++ runes_of_ascii """
+    :matchKey """ ++ [28040; 24687]%N ++ runes_of_ascii """ :x_y_z ,
+    0 : trueish, [ """" /// triple
+, """ ++ [128512]%N ++ runes_of_ascii """ ,  """ ++ [28040; 24687]%N ++ runes_of_ascii """ , 3 ,
+    7// " ++ [128512]%N ++ runes_of_ascii " emoji
+, ""`tick`"" ,""""
+]
+: _x },
+    //x
+    @leftPad(
+' ' ) string_ falsey	`say ""hi""` // " ++ [27880; 37322]%N ++ runes_of_ascii "
+, @leftPad (
+' ') @rightPad  (
+'0' )
+    @leftPad( )
+match	roots as
+a1{ ""packet"" : T }
+, @calculatedFrom(
+    ""`tick`""
+    // " ++ [27880; 37322]%N ++ runes_of_ascii "
+    ) @calculatedFrom( ""`tick`"" )
+@calculatedFrom(// a // b
+""\" ++ [233]%N ++ runes_of_ascii """)
+    // a // b
+    zchar[0]
+    A ,
+// " ++ [27880; 37322]%N ++ runes_of_ascii "
+//
+zchar[ //x
+0123456789 ]x ,
+    }
+")).
+Eval vm_compute in ("<<<M631>>>" ++ check (runes_of_ascii "packet pack {
+    }options {	As
+//
+// " ++ [128512]%N ++ runes_of_ascii " emoji
+= ""\" ++ [233]%N ++ runes_of_ascii """ ; }
+    root packet lengthOf{
+    @tag(65535 ) @calculatedFrom( """ ++ [233]%N ++ runes_of_ascii "t" ++ [233]%N ++ runes_of_ascii """ ) @calculatedFrom(""abc"" )	repeat string
+msg_type
+    ,
+    @calculatedFrom(
+    """ ++ [233]%N ++ runes_of_ascii "t" ++ [233]%N ++ runes_of_ascii """)
+char[ 255
+] // packet A { u8 x, }
+Logon , u64 pack@calculatedFrom( ""a\\"" /// triple
+), @rightPad (
+    '0' ) T
+{ zchar[ 3 ] u8x @calculatedFrom( ""CRC32""
+)`two words` , o{_x {
+    // " ++ [27880; 37322]%N ++ runes_of_ascii "
+    float32 calculatedFrom
+    , } ,
+    repeat
+int64 u128 ,float32 string_ @lengthOf(msg_type )`say ""hi""` , } ,
+} ,i16 charz`a\`//
+, @lengthOf( x	) leftPad {
+As { int64 i8i8
+,
+} ,
+    // packet A { u8 x, }
+    } ,
+    @tag( 7	) @tag( 7
+    /// triple
+    ) x_y_z@lengthOf( body)
+    ,@tag(
+007 )repeat	calculatedFrom _x ,@calculatedFrom(	""\n"" )
+    repeat
+    u8
+trueish , i16
+calculatedFrom `it's`
+    , }
+packet	A { match As as chars {""1"" :options1 ,} , } packet Packet { @leftPad
+    // " ++ [27880; 37322]%N ++ runes_of_ascii "
+    ( '\x00'
+    ) float64 // c
+matchKey ,
+zchar[
+65535	] Pad`" ++ [233]%N ++ runes_of_ascii "` ,
+    repeat
+uint32 options1,	@calculatedFrom(
+    ""// no comment"" ) char[] metadata `// not a comment`
+,Header @calculatedFrom( ""packet"" ) ``
+,  }
+// a // b
+")).
+Eval vm_compute in ("<<<M909>>>" ++ check (runes_of_ascii "options { f32a
+=
+007
+    ;body =""" ++ [128512]%N ++ runes_of_ascii """	i64_ // " ++ [27880; 37322]%N ++ runes_of_ascii "
+=zchar[ 0123456789
+]
+}
+options {
+    i8i8
+= // c
+""abc"" ; body = true T
+=
+float32} root packet MetaDataX
+    //	t
+    {	@rightPad
+    ( '\x00' )char[] // " ++ [128512]%N ++ runes_of_ascii " emoji
+matchKey ,
+    @calculatedFrom(""CRC32""
+) // c
+match
+int as
+options1 { """ ++ [233]%N ++ runes_of_ascii "t" ++ [233]%N ++ runes_of_ascii """ : calculatedFrom , } ,@tag(  7) char[
+    65535 ] packetx `" ++ [233]%N ++ runes_of_ascii "` , @calculatedFrom(
+    """ ++ [28040; 24687]%N ++ runes_of_ascii """) string
+    A  ,  repeat T{
+repeat tag
+`// not a comment`
+, } ,
+    // `tick` ""quote"" 'q'
+    @rightPad	( '0' ) @calculatedFrom( ""{,}"") Header
+    {
+int8 A
+    `u8 x,`
+    , chars  { zchar
+{ metadata//	t
+metadata ,} ,zchar[ 00
+] Foo // " ++ [27880; 37322]%N ++ runes_of_ascii "
+, repeat lengthOf
+{ x	`line1
+line2` ,
+    repeat
+    // trailing space 
+    zchar[ 1
+    //x
+    ]
+trueish ,},
+match uint8x as As { 1 :u128
+, ""a\""b""	:i64_ 0 : string_,} ,
+} , }//
+,//	t
+repeat char float `say ""hi""`  ,
+// a // b
+//
+repeat
+    char[]x `say ""hi""`
+    , repeat char[]
+    //	t
+    A `{ , }` , Header @lengthOf( lengthOf ) , } root packet
+float { string_/// triple
+repeatCount ,
+repeat //x
+rootA x  ,  }
+// " ++ [128512]%N ++ runes_of_ascii " emoji
+")).
+Eval vm_compute in ("<<<M894>>>" ++ check (runes_of_ascii "packet leftPad{	char[]
+matchKey@lengthOf( MetaDataX ) , }
+options
+{
+}
+    packet
+    f32a {
+@lengthOf(
+int
+) @leftPad
+('\x00' )
+@calculatedFrom(
+""\" ++ [233]%N ++ runes_of_ascii """
+    // a // b
+    )  repeat
+    T BodyLength ,@leftPad
+('\x00' )uint16 body @calculatedFrom(  ""{,}"" ) `" ++ [233]%N ++ runes_of_ascii "` , @leftPad	(  ' '
+    // trailing space 
+    )
+    match Z9_ as Foo // a // b
+{ 7
+: MetaDataX
+,
+    4294967296 :// c
+options1 , ""x y"" :
+A} ,	repeat zchar[
+    10 //x
+] f32a
+    `it's`//
+, // trailing space 
+} packet x_y_z{ uint32 _x
+    , MetaDataX { trueish metadata  ,char[
+    // " ++ [128512]%N ++ runes_of_ascii " emoji
+    42 ]
 // " ++ [27880; 37322]%N ++ runes_of_ascii "
 //	t
+falsey, } //x
+, char[] packetx//
+`it's`  , falsey , repeat metadata `it's` ,//x
+@tag(
+42)
+x
+@calculatedFrom(	""x y"" ) , @lengthOf( float // a // b
+)
+    // packet A { u8 x, }
+    repeat Foo{ asx
+// a // b
+// " ++ [128512]%N ++ runes_of_ascii " emoji
+{ repeat char[]crc	`a\`, repeat A ,
+} , u  Packet `say ""hi""`, roots @calculatedFrom(/// triple
+""{,}"" // trailing space 
+) , zchar[ 65535
+]
+f32a @lengthOf( o) ,  }
+    ,
+// @lengthOf(
+// @lengthOf(
+}")).
+Eval vm_compute in ("<<<M4343>>>" ++ check (runes_of_ascii "options {
+    lengthOf = """ ++ [128512]%N ++ runes_of_ascii """
+    Pad = ""it's""
+    Packet = ' ';
+}
+
+packet stringy {
+    @calculatedFrom(""a\\"")
+    stringy asx `doc`,
+    f32a,
+    options1 {
+        f64 BodyLength @lengthOf(i64_),
+        matchKey roots,
+        repeat i8 chars,
+        /// triple
+    },
+    charz string_,
+    i8 repeatCount `crlf
+        line`,
+}
+
+packet uint8x {
+    @tag(00)
+    uint64 MetaDataX,
+    @tag(00)
+    char uint8x @lengthOf(uint8x),
+    roots @lengthOf(stringy) `
+        `,
+    @rightPad()
+    zchar[0123456789] T `" ++ [233]%N ++ runes_of_ascii "`,
+    @tag(42)
+    repeat i64 repeatCount,
+    falsey `doc`,
+    char[65535] falsey `say ""hi""`,
+    x_y_z int,
+    @lengthOf(MetaDataX)
+    match Logon as leftPad {
+        ""abc"" : zchar,
+        255 : A,
+    },
+}
+
+MetaData falsey {
+}
+
+packet BodyLength {
+    Pad asx,
+    @calculatedFrom(""a	b"")
+    string packetx `it's`,
+    float64 uint8x `two words`,
+    zchar[007] uint8x @calculatedFrom(""a\\"") `" ++ [28040; 24687; 31867; 22411]%N ++ runes_of_ascii "`,
+}")).
+Eval vm_compute in ("<<<M1214>>>" ++ check (runes_of_ascii "packet float
+{ @calculatedFrom(
+""a\\""
+    ) char[
+00 ]zchar `line1
+line2` ,
+//	t
+// `tick` ""quote"" 'q'
+@lengthOf(
+calculatedFrom )
+    match chars as repeatCount // a // b
+{ // packet A { u8 x, }
+""CRC32"" : // packet A { u8 x, }
+f32a
+, }
+    , // packet A { u8 x, }
+} root
+    packet BodyLength {@rightPad ( '\x00' )u32 Header@lengthOf( A
+) , @leftPad
+( '0' // c
+)char[ 1 ] metadata@calculatedFrom(
+    ""x y""	) , repeat f32a {char[] _x @lengthOf( body ) `line1
+line2`, calculatedFrom
 {
-    @tag( 0)repeat
-    chars `doc` , }
+string msg_type,char[
+    0123456789	] int@lengthOf(
+    int )
+    ``	, } , } , trueish ,
+//x
+// `tick` ""quote"" 'q'
+char[] f32a ,
+    o Pad  , crc @lengthOf(
+    chars	)`" ++ [28040; 24687; 31867; 22411]%N ++ runes_of_ascii "` //
+,	@calculatedFrom(
+""\n""
+) // packet A { u8 x, }
+@lengthOf( leftPad ) BodyLength { repeat Logon
+    {
+lengthOf
+@lengthOf( trueish  ) `// not a comment`,} ,
+    }, }MetaData matchKey{
+uint64
+BodyLength , }
 ")).
-Eval vm_compute in ("<<<M1040>>>" ++ check (runes_of_ascii "packet
-string_ {zchar[// " ++ [128512]%N ++ runes_of_ascii " emoji
-255]chars
-@lengthOf( leftPad)
-, } options
-    { repeatCount= true ;msg_type // c
-=  ' '
-    ;
-rootA = true
-;}
-root packet len//	t
-{ zchar[  7 ]
-BodyLength@calculatedFrom( """ ++ [128512]%N ++ runes_of_ascii """ ) ,
-    }MetaData
-    charz{ string Packet, /// triple
-}
-")).
-Eval vm_compute in ("<<<M651>>>" ++ check (runes_of_ascii "packet trueish {repeat As,	repeat uint8 repeatCount
-, @tag( 255) match a1 as x_y_z{  3
-    : i8i8 ,
-    ""abc""
-    : Z9_, 007
+Eval vm_compute in ("<<<M3822>>>" ++ check (runes_of_ascii "packet Header {
+    trueish @calculatedFrom(""a	b""),
+    Header @calculatedFrom(""a\\""),//	t
+    @calculatedFrom(""a\\"")
+    /// triple
+    i16 body @lengthOf(f32a),// packet A { u8 x, }
+    match stringy as _x {
+        ""`tick`"" : string_,
+        42 : u8x,
+        ""\n"" : repeatCount,
+        ""a\\"" : options1,
+        [
+            4294967296, ""{,}"", 4294967296, """ ++ [28040; 24687]%N ++ runes_of_ascii """, 3,
+            ""abc""
+        ] : u8x,
+    },
+    zchar[0123456789] MetaDataX,
+    @calculatedFrom(""x y"")
+    @lengthOf(A)
+    zchar[00] a1,
+    match options1 as calculatedFrom {
+        [
+            ""// no comment"", ""abc"", 65535, ""CRC32"", 0,
+            ""CRC32""
+        ] : uint8x,
+        ""// no comment"" : chars,
+        [""" ++ [233]%N ++ runes_of_ascii "t" ++ [233]%N ++ runes_of_ascii """, ""a	b""] : pack,
+        10 : tag,
+    },
+    @tag(42)
+    repeat len,
+    @lengthOf(u)
+    char[] f32a,// packet A { u8 x, }
+}")).
+Eval vm_compute in ("<<<M4608>>>" ++ check (runes_of_ascii "packet x {
+    u16 msg_type @lengthOf(BodyLength),// trailing space 
+    @calculatedFrom(""" ++ [28040; 24687]%N ++ runes_of_ascii """)
+    repeat Header {
+        char[0123456789] repeatCount,
+        zchar[7] i64_ @calculatedFrom(""" ++ [28040; 24687]%N ++ runes_of_ascii """),
+        repeat T zchar `tab	here`,
+    },
+    uint8 body `doc`,
+    repeat char[] i8i8,
+    uint32 f32a @calculatedFrom(""`tick`""),
+    @rightPad(' ')
+    match rootA as matchKey {
+        42 : lengthOf,
+        // `tick` ""quote"" 'q'
+        ""// no comment"" : Z9_,
+        [""a\\"", 1] : len,
+        10 : trueish,
+    },
+    f64 Logon @lengthOf(T) `crlf
+        line`,
+    match float as i8i8 {
+        ""\n"" : i64_,
+    },
+    @lengthOf(u8x)
+    // trailing space 
+    @leftPad('\x00')
+    char[007] body `it's`,
+    @leftPad('0')
+    string crc @calculatedFrom(""a\\"") `" ++ [28040; 24687; 31867; 22411]%N ++ runes_of_ascii "`,
+}")).
+Eval vm_compute in ("<<<M343>>>" ++ check (runes_of_ascii "packet
+Pad{
+    } options { _x
+= false
 /// triple
+// trailing space 
+;} MetaData	repeatCount{char[ 10 ]  As `it's`
+, T metadata `say ""hi""` , u16
+matchKey ,  }packet u128{f32
+    As@calculatedFrom( ""packet"") `a\` , repeat
+// packet A { u8 x, }
+// " ++ [128512]%N ++ runes_of_ascii " emoji
+char[ 7 ]
+// packet A { u8 x, }
+// `tick` ""quote"" 'q'
+T `say ""hi""`,
+    @lengthOf(
+    // c
+    rootA )u64 //
+trueish `{ , }` , repeat char[
+3 ] MetaDataX ,
+    repeat float64  i64_ ,i16
+    charz
+    ,u8 trueish @lengthOf(
+    int
+    )`u8 x,`
+    ,
+    @leftPad ( '0' ) match
+Header
+as
+f32a { [  007
+]
+:
+i8i8
+, ""a	b""	://x
+As ,
+[ ""\n"" ]  :	zchar ,
+    007:
+a1 ,	0123456789 : falsey
+, } , repeat float64 stringy	`a\`, } packet
+    MetaDataX
+{ roots
+    // @lengthOf(
+    leftPad `a\`, }")).
+Eval vm_compute in ("<<<M3772>>>" ++ check (runes_of_ascii "root packet calculatedFrom {
+    /// triple
+    @calculatedFrom(""{,}"")
+    match asx as i8i8 {
+        ""CRC32"" : f32a,
+        ""// no comment"" : Packet,
+        // trailing space 
+    },
+    repeat zchar[7] len,//
+    match options1 as string_ {
+        """ ++ [128512]%N ++ runes_of_ascii """ : metadata,
+        [""\n"", ""CRC32"", ""a\""b""] : x_y_z,
+        42 : string_,
+    },
+    @lengthOf(msg_type)
+    string Pad `tab	here`,
+    f32a,
+    match Logon as stringy {
+        007 : metadata,
+        [255, 10] : matchKey,
+        [10, ""1"", ""`tick`"", 0] : roots,
+        255 : o,
+        [1] : msg_type,
+        0123456789 : falsey,
+    },
+}
+
+root packet crc {
+}
+
+options {
+    falsey = false;
+    len = ""\" ++ [233]%N ++ runes_of_ascii """;
+    A = ""a	b""
+    lengthOf = ""1""
+}")).
+Eval vm_compute in ("<<<M4520>>>" ++ check (runes_of_ascii "packet As {
+    //	t
+    char[4294967296] o @calculatedFrom(""// no comment""),
+    @calculatedFrom(""\" ++ [233]%N ++ runes_of_ascii """)
+    Foo {
+        pack @lengthOf(uint8x),
+    },
+    @calculatedFrom(""it's"")
+    @lengthOf(Pad)
+    //
+    @calculatedFrom(""" ++ [128512]%N ++ runes_of_ascii """)
+    repeat zchar[42] BodyLength,
+    match body as T {
+        255 : msg_type,
+        4294967296 : metadata,
+        [""{,}"", 4294967296] : f32a,
+        7 : options1,
+        10 : float,
+        [""abc"", ""abc"", 0] : u,
+    },
+    repeat int64 o `
+        `,
+    i8i8 `// not a comment`,
+}
+
+packet x {
+}
+
+packet falsey {
+    repeat char Logon,
+}
+
+packet _x {
+    @calculatedFrom(""a\""b"")
+    @tag(7)
+    @calculatedFrom(""a\\"")
+    metadata,
+}")).
+Eval vm_compute in ("<<<M675>>>" ++ check (runes_of_ascii "packet uint8x {@lengthOf( Z9_) match A as As { 3
+    : float,""x y"" :
+    pack
+, 255  :
+    roots
+    ,
+    [  ""\n""]	: int
+    , // " ++ [27880; 37322]%N ++ runes_of_ascii "
+[ // @lengthOf(
+""CRC32"" , ""1""] :
+    len , } ,char[] options1`{ , }` ,	@tag(
+    255  )	f32a @calculatedFrom( """ ++ [28040; 24687]%N ++ runes_of_ascii """)`// not a comment` ,match
+    x as pack{ ""// no comment"" : roots //
+,
+    """ ++ [233]%N ++ runes_of_ascii "t" ++ [233]%N ++ runes_of_ascii """ :	asx, [ ""1"",
+""abc"" , 4294967296
+    , """ ++ [128512]%N ++ runes_of_ascii """  ]
+    // `tick` ""quote"" 'q'
+    :crc , ""{,}"" :
+    // a // b
+    As
+00 //
+: string_
+    ,
+}
+, Logon ,
+    } packet tag { // " ++ [27880; 37322]%N ++ runes_of_ascii "
+@tag(00
+)a1 { u8
+zchar
+`` , }, @rightPad ( ' '
+    )o i8i8 , f64 Logon @lengthOf(options1)
+    , }
+    packet pack{ }
+// a // b
+")).
+Eval vm_compute in ("<<<M4234>>>" ++ check (runes_of_ascii "packet crc {
+    // packet A { u8 x, }
+    // trailing space 
+    Logon,
+}
+
+options {
+    msg_type = '\x00';
+}
+
+packet falsey {
+    char[0123456789] calculatedFrom @calculatedFrom(""packet"") `say ""hi""`,
+    match As as o {
+        65535 : A,
+        """" : _x,
+        ""`tick`"" : zchar,
+        0123456789 : calculatedFrom,
+    },
+    @tag(00)
+    As {
+        char[] calculatedFrom,
+    },
+    float32 zchar,
+    char[255] lengthOf,
+    @lengthOf(chars)
+    @lengthOf(a1)
+    body @calculatedFrom(""// no comment"") `crlf
+        line`,
+}
+
+root packet _x {
+    @calculatedFrom(""a\\"")
+    repeat i32 o,
+}")).
+Eval vm_compute in ("<<<M450>>>" ++ check (runes_of_ascii "  packet
+    body {
+    @tag( 00 ) zchar[
+255 ]
+//	t
+// `tick` ""quote"" 'q'
+zchar @calculatedFrom( ""it's"" ) , int8 i8i8	,
+    x_y_z @lengthOf(options1 )
+    ,
+    // packet A { u8 x, }
+    zchar[00
+] T,
+repeat float64
+chars , f64 repeatCount `doc` ,
+    repeat i64_
+repeatCount, repeat Header int
+    , uint16 len `line1
+line2`
+    ,
+@lengthOf(	Header)
+@tag( 0123456789
+) float64 u8x @lengthOf(options1 ) `u8 x,`
+    , }options { x = ""\" ++ [233]%N ++ runes_of_ascii """ ; }
+    // " ++ [128512]%N ++ runes_of_ascii " emoji
+    MetaData	trueish	{ options1 float ``  , // a // b
+zchar[ 3]
+    lengthOf , }options{ rootA
+    =""1""  T = """ ++ [128512]%N ++ runes_of_ascii """ }
+")).
+Eval vm_compute in ("<<<M888>>>" ++ check (runes_of_ascii "
+packet packetx //	t
+{
+lengthOf
+    @lengthOf( T )
+    // trailing space 
+    `// not a comment`
+, char[ 42] Header `two words` ,} packet
+    Logon { repeat
+string i64_ `u8 x,`
+, @rightPad ( )match calculatedFrom //
+as
+stringy /// triple
+{ [ 0123456789 , // trailing space 
+7  ,
+""1""
+, 1
+, ""`tick`""	]
+:
+    zchar
+, 3 //	t
+:
+packetx
+    [
+    10,""CRC32"" ]:	x
+[7 ]  :
+    // `tick` ""quote"" 'q'
+    Foo
+,[ ""CRC32""
+,
+10 ,
+// " ++ [27880; 37322]%N ++ runes_of_ascii "
+// packet A { u8 x, }
+65535 ,
+// " ++ [27880; 37322]%N ++ runes_of_ascii "
+// a // b
+7 ,""{,}"" ] : A // @lengthOf(
+, 00 :rootA
+    , }
+, } options{
+}
+")).
+Eval vm_compute in ("<<<M482>>>" ++ check (runes_of_ascii "options
+{	roots
+=
+true
+; MetaDataX =
+    3 ; trueish =10
+    } packet
+o
+    { @tag(
+    4294967296 // " ++ [128512]%N ++ runes_of_ascii " emoji
+) u8 u`
+` ,
+    Foo	, }
+    //	t
+    MetaData matchKey {  } packet
+zchar { float@lengthOf(Pad ) , @calculatedFrom(
+""" ++ [28040; 24687]%N ++ runes_of_ascii """ )
+@tag(007 )
+    repeat u16	string_ `" ++ [233]%N ++ runes_of_ascii "` ,@leftPad //	t
+(
+'\x00'
+    ) chars calculatedFrom	, @tag( 0	)	u128 @lengthOf(calculatedFrom ) `two words` , zchar[ 42 ] //	t
+i64_
+    @lengthOf(//
+u128) ``
+// trailing space 
+// c
+,Packet { repeat char[]
+    len
+, leftPad `line1
+line2` ,	}
+, }")).
+Eval vm_compute in ("<<<M937>>>" ++ check (runes_of_ascii "options
+{ u8x =  0123456789
+    ;
+    } packet rootA {
+    i8i8 repeatCount
+    ,}
+// " ++ [27880; 37322]%N ++ runes_of_ascii "
+// a // b
+root packet MetaDataX { // @lengthOf(
+Logon // " ++ [27880; 37322]%N ++ runes_of_ascii "
+{int64 i8i8 @lengthOf(  Header ) ,
+    //x
+    } ,}	root packet // @lengthOf(
+Pad {	roots { i16 Logon
+    @calculatedFrom( """ ++ [233]%N ++ runes_of_ascii "t" ++ [233]%N ++ runes_of_ascii """) , match As	as float
+{ [ ""packet"" //
+, ""// no comment""
+    ] : a1
+, 65535	: f32a, [
+    ""a\""b""
+    ,
+""// no comment"" , ""a	b"",
+    //
+    ""a	b"",
+""a\\""]
+:
+x , ""{,}""
+:	rootA
+,
+10
+:	msg_type
+, } ,
+}
+    ,
+} options {}
+")).
+Eval vm_compute in ("<<<M4089>>>" ++ check (runes_of_ascii "  root
+packet
+    _x
+
+{ } 
+/// triple
+		root packet  // `tick` ""quote"" 'q'
+
+rootA
+
+{
+
+@lengthOf( msg_type )
+
+@calculatedFrom( ""a	b"" )
+Z9_ {	repeat
+
+char[]
+	msg_type`two words` ,}
+	,}
+options 
+{
+    Logon
+=7 ;
+u8x
+
+= '0' 
+len =
+
+    '\x00'
+
+    Foo
+= 
+10 ;}	MetaData leftPad 
+{	// @lengthOf(
+  Packet
+i8i8  `a\`
+    ,
+
+    msg_type  int // " ++ [27880; 37322]%N ++ runes_of_ascii "
+	`line1
+line2`
+    // @lengthOf(
+  /// triple
+  ,
+    uint8x i8i8 `it's` ,BodyLength
+repeatCount ,// packet A { u8 x, }
+	}
+")).
+Eval vm_compute in ("<<<M1375>>>" ++ check (runes_of_ascii "
+root
+    packet _x
+    { }
+    /// triple
+    root packet // `tick` ""quote"" 'q'
+rootA
+{
+    @lengthOf( msg_type
+)
+    @calculatedFrom( ""a	b""
+    ) Z9_ { repeat char[]msg_type `two words` , }, }
+options {Logon = 7 ; u8x = '0' len =
+'\x00' Foo	=
+    10 ; } MetaData leftPad
+    {// @lengthOf(
+Packet
+i8i8 `a\`
+,
+msg_type
+    int// " ++ [27880; 37322]%N ++ runes_of_ascii "
+`line1
+line2`
+// @lengthOf(
+/// triple
+,
+uint8x
+i8i8
+    `it's`
+    ,BodyLength repeatCount ,// packet A { u8 x, }
+}
+")).
+Eval vm_compute in ("<<<M464>>>" ++ check (runes_of_ascii "options {zchar
+    =
+""packet"";o = ""CRC32"" ; len
+= """" ;
+}packet roots {// @lengthOf(
+char
+// `tick` ""quote"" 'q'
+//x
+f32a , } root packet
+    x { char[ 7 ]
+pack // " ++ [27880; 37322]%N ++ runes_of_ascii "
+,	}  packet x { zchar[
+// `tick` ""quote"" 'q'
+// @lengthOf(
+1
+    ] A
+@calculatedFrom( ""a\""b""
+/// triple
+// trailing space 
+) , repeat metadata
+Foo , u8x
+lengthOf ,A Header, @calculatedFrom( ""CRC32"" )
+@calculatedFrom(/// triple
+""""  )
+@leftPad ( '\x00' ) pack x_y_z,
+}
+")).
+Eval vm_compute in ("<<<M462>>>" ++ check (runes_of_ascii "
+root
+packet string_ {	@tag(	65535)  u8  u8x@calculatedFrom( ""it's"" // packet A { u8 x, }
+) , zchar[	10
+// " ++ [27880; 37322]%N ++ runes_of_ascii "
 //
-: leftPad 65535
-    : x_y_z ""a\""b"" :matchKey, } , @rightPad(' '
-) // `tick` ""quote"" 'q'
-string packetx , // " ++ [128512]%N ++ runes_of_ascii " emoji
-}
-")).
-Eval vm_compute in ("<<<M1558>>>" ++ check (runes_of_ascii "packet
-//	t
-// trailing space 
-_x {
-// packet A { u8 x, }
-// c
-char[
-3
-    ] u8x @lengthOf(
-u8x ) , @calculatedFrom(""" ++ [128512]%N ++ runes_of_ascii """ // @lengthOf(
-)
-i16 i16	Foo
-@lengthOf(	string_
-    )`doc`	, repeat	i64 metadata , @lengthOf( string_
-) i8 // c
-u  `line1
-line2`	,
-}
-")).
-Eval vm_compute in ("<<<M1663>>>" ++ check (runes_of_ascii "packet
-//	t
-// trailing space 
-_x {
-// packet A { u8 x, }
-// c
-char[
-3
-    ] u8x @lengthOf(
-u8x ) , @calculatedFrom(""" ++ [128512]%N ++ runes_of_ascii """ // @lengthOf(
-)
-i16	Foo
-@lengthOf(	string_
-    )`doc`	, repeat	i64 metadata , @lengthOf( string_
-) i8 // c
-u  `line1
-line2`	,
-}
-" ++ [65279]%N ++ runes_of_ascii " ")).
-Eval vm_compute in ("<<<M1534>>>" ++ check (runes_of_ascii "packet
-//	t
-// trailing space 
-_x {
-// packet A { u8 x, }
-// c
-char[
-3
-    ] u8x @lengthOf(
-u8x , ) @calculatedFrom(""" ++ [128512]%N ++ runes_of_ascii """ // @lengthOf(
-)
-i16	Foo
-@lengthOf(	string_
-    )`doc`	, repeat	i64 metadata , @lengthOf( string_
-) i8 // c
-u  `line1
-line2`	,
-}
-")).
-Eval vm_compute in ("<<<M1507>>>" ++ check (runes_of_ascii "packet
-//	t
-// trailing space 
-_x {
-// packet A { u8 x, }
-// c
-char[
-
-    ] u8x @lengthOf(
-u8x ) , @calculatedFrom(""" ++ [128512]%N ++ runes_of_ascii """ // @lengthOf(
-)
-i16	Foo
-@lengthOf(	string_
-    )`doc`	, repeat	i64 metadata , @lengthOf( string_
-) i8 // c
-u  `line1
-line2`	,
-}
-")).
-Eval vm_compute in ("<<<M1650>>>" ++ check (runes_of_ascii "packet
-//	t
-// trailing space 
-_x {
-// packet A { u8 x, }
-// c
-char[
-3
-    ] u8x @lengthOf(
-u8x ) , @calculatedFrom(""" ++ [128512]%N ++ runes_of_ascii """ // @lengthOf(
-)
-i16	Foo
-@lengthOf(	string_
-    )`doc`	, repeat	i64 metadata , @lengthOf( string_
-) i8 // c
-u  `line1
-line2`	,")).
-Eval vm_compute in ("<<<M3658>>>" ++ check (runes_of_ascii "
-packet	Sub
-{	u8 a,@calculatedFrom(
-	""CRC16"")
-u16
-	SubSum,
-    }
-
+] pack,  string
+f32a  ,
+Pad x`say ""hi""`
+,@calculatedFrom(
+""`tick`""	) // c
+@rightPad ( ' ') @calculatedFrom(
+""" ++ [128512]%N ++ runes_of_ascii """ )
+    match tag as  u128 {
+    [
+255 ,	""packet""
+,	4294967296 , ""// no comment"" , ""\n"" , // a // b
+65535 ,""""
+    // c
+    , """ ++ [28040; 24687]%N ++ runes_of_ascii """] : falsey ""CRC32"" : uint8x , [ 007 , 3 , """ ++ [28040; 24687]%N ++ runes_of_ascii """
+] : As , }	,
+} 	 ")).
+Eval vm_compute in ("<<<M419>>>" ++ check (runes_of_ascii "/// triple
+MetaData
+x {uint64 u `doc`	, }
 root
 packet
-Frame
-
-{ u16 
-MsgType, u16
-
-BodyLen
-@lengthOf(
-
-    Body), Sub  Body, string
-
-    note 
-,
-    @calculatedFrom(""CRC16""
-
-)u16
-Checksum 
-,	u8
-	tail
-    , 
+i8i8
+    {uint32
+    zchar @lengthOf( chars ) , string rootA@calculatedFrom(
+    ""\n""
+) , } packet	MetaDataX
+//	t
+/// triple
+{ i32 A
+    @lengthOf( string_ )
+`` , @calculatedFrom( ""a\\"" ) @lengthOf( roots ) msg_type asx  `crlf
+line` ,@lengthOf(//
+metadata ) @calculatedFrom( """ ++ [28040; 24687]%N ++ runes_of_ascii """) @leftPad
+(
+) repeat string o `// not a comment`
+    , } //x")).
+Eval vm_compute in ("<<<M1251>>>" ++ check (runes_of_ascii "
+packet
+T {
+uint64
+rootA
+    `it's`
+    ,
+// a // b
+// packet A { u8 x, }
+@tag( 255
+    )
+f32a
+{
+string
+MetaDataX
+`" ++ [28040; 24687; 31867; 22411]%N ++ runes_of_ascii "`
+, } ,uint8x
+    //x
+    @lengthOf( u8x ),
+match
+x
+    // a // b
+    as As	{4294967296	: trueish , ""{,}"": Packet , 1  :float
+,  007 : repeatCount , //	t
+}, @leftPad (  '0' ) @lengthOf( crc ) int16 // trailing space 
+u128 , calculatedFrom
+asx
+`u8 x,` ,
 }
 ")).
-Eval vm_compute in ("<<<M1132>>>" ++ check (runes_of_ascii "packet //
-x
-    { } packet lengthOf{  repeat a1 { lengthOf @lengthOf( x_y_z ) ,// `tick` ""quote"" 'q'
-zchar[ 0123456789
-    ]Packet , leftPad
-    u,
-    zchar[1 ] Foo
-    // @lengthOf(
-    @calculatedFrom(""`tick`""// " ++ [27880; 37322]%N ++ runes_of_ascii "
-) , }
-,  } 	 ")).
-Eval vm_compute in ("<<<M4581>>>" ++ check (runes_of_ascii "options {
-    StringPrefixLenType = u16;
-    FixedStringPadChar = ' ';
+Eval vm_compute in ("<<<M74>>>" ++ check (runes_of_ascii "root packet x	{ @calculatedFrom(""a\\"" ) zchar[42 ]float @calculatedFrom(""a\""b""  ) `
+` ,
+    } MetaData o
+    {
+int8
+BodyLength,string len ,
+    string len , float falsey ,T float
+    , }	MetaData pack { /// triple
+charz o
+`// not a comment`	,	float64 f32a `tab	here`  , int32  u8x  `// not a comment` ,char[10 ]
+a1
+, float32 options1  ,
+} // `tick` ""quote"" 'q'")).
+Eval vm_compute in ("<<<M4248>>>" ++ check (runes_of_ascii "// c
+root packet o {
+    @tag(42)
+    a1,
 }
 
-packet Party {
+options {
+    asx = char[0];
+    int = '\x00';
+    _x = ""it's""
+    packetx = ""// no comment""
+    u8x = """ ++ [233]%N ++ runes_of_ascii "t" ++ [233]%N ++ runes_of_ascii """
 }
 
-packet Quote {
-    repeat Party,
-    repeat char[2] f1,
+root packet T {
+    @lengthOf(float)
+    match falsey as matchKey {
+        ""a\\"" : x_y_z,
+        //x
+    },
+}
+
+options {
+    zchar = 0// trailing space 
+    repeatCount = uint64;// a // b
+}")).
+Eval vm_compute in ("<<<M666>>>" ++ check (runes_of_ascii "
+packet u8x { //
+asx
+// a // b
+// @lengthOf(
+`say ""hi""`
+    //x
+    ,}  MetaData Foo{ packetx
+MetaDataX `" ++ [28040; 24687; 31867; 22411]%N ++ runes_of_ascii "` ,}
+packet  a1 {@calculatedFrom(""\" ++ [233]%N ++ runes_of_ascii """// trailing space 
+) len
+// " ++ [27880; 37322]%N ++ runes_of_ascii "
+// c
+`` ,@calculatedFrom(
+""a\\""// trailing space 
+) @lengthOf(
+calculatedFrom )//	t
+string
+    msg_type
+// trailing space 
+// c
+,
+}
+// packet A { u8 x, }
+")).
+Eval vm_compute in ("<<<M1986>>>" ++ check (runes_of_ascii "MetaData
+    u { }  options {
+// c
+// @lengthOf(
+float = int8 ;rootA =false ; As =	int16 // `tick` ""quote"" 'q'
+repeatCount
+    // trailing space 
+    =
+    int16
+; u8x =
+    //	t
+    '\x00' ; } options options	{
+    repeatCount
+= 0
+u128
+    //
+    = false ; i64_
+// trailing space 
+// `tick` ""quote"" 'q'
+= '0' ; //	t
+}
+")).
+Eval vm_compute in ("<<<M1186>>>" ++ check (runes_of_ascii "root
+packet u128 {match zchar
+as
+    msg_type // `tick` ""quote"" 'q'
+{ 7
+    //	t
+    :	lengthOf ,0123456789:MetaDataX
+""{,}""  :  o
+    ,  255
+// trailing space 
+//
+://
+metadata ,
+[ 1 ] :	A , [
+007 , ""a\\"" , 0123456789
+,	255 ,
+""\" ++ [233]%N ++ runes_of_ascii """,  007 ] :
+// `tick` ""quote"" 'q'
+// packet A { u8 x, }
+falsey,
+}
+    , } // a // b")).
+Eval vm_compute in ("<<<M2043>>>" ++ check (runes_of_ascii "MetaData
+    u { }  options {
+// c
+// @lengthOf(
+float = int8 ;rootA =false ; As =	int16 // `tick` ""quote"" 'q'
+repeatCount
+    // trailing space 
+    =
+    int16
+; u8x =
+    //	t
+    '\x00' ; } options	{
+    repeatCount
+= 0
+u128
+    //
+    = false ; i64_
+// trailing space 
+// `tick` ""quote"" 'q'
+= match ; //	t
+}
+")).
+Eval vm_compute in ("<<<M1872>>>" ++ check (runes_of_ascii "MetaData
+    u { options  } {
+// c
+// @lengthOf(
+float = int8 ;rootA =false ; As =	int16 // `tick` ""quote"" 'q'
+repeatCount
+    // trailing space 
+    =
+    int16
+; u8x =
+    //	t
+    '\x00' ; } options	{
+    repeatCount
+= 0
+u128
+    //
+    = false ; i64_
+// trailing space 
+// `tick` ""quote"" 'q'
+= '0' ; //	t
+}
+")).
+Eval vm_compute in ("<<<M2022>>>" ++ check (runes_of_ascii "MetaData
+    u { }  options {
+// c
+// @lengthOf(
+float = int8 ;rootA =false ; As =	int16 // `tick` ""quote"" 'q'
+repeatCount
+    // trailing space 
+    =
+    int16
+; u8x =
+    //	t
+    '\x00' ; } options	{
+    repeatCount
+= 0
+u128
+    //
+    = ; false i64_
+// trailing space 
+// `tick` ""quote"" 'q'
+= '0' ; //	t
+}
+")).
+Eval vm_compute in ("<<<M2033>>>" ++ check (runes_of_ascii "MetaData
+    u { }  options {
+// c
+// @lengthOf(
+float = int8 ;rootA =false ; As =	int16 // `tick` ""quote"" 'q'
+repeatCount
+    // trailing space 
+    =
+    int16
+; u8x =
+    //	t
+    '\x00' ; } options	{
+    repeatCount
+= 0
+u128
+    //
+    = false ; `
+`
+// trailing space 
+// `tick` ""quote"" 'q'
+= '0' ; //	t
+}
+")).
+Eval vm_compute in ("<<<M1998>>>" ++ check (runes_of_ascii "MetaData
+    u { }  options {
+// c
+// @lengthOf(
+float = int8 ;rootA =false ; As =	int16 // `tick` ""quote"" 'q'
+repeatCount
+    // trailing space 
+    =
+    int16
+; u8x =
+    //	t
+    '\x00' ; } options	{
+    match
+= 0
+u128
+    //
+    = false ; i64_
+// trailing space 
+// `tick` ""quote"" 'q'
+= '0' ; //	t
+}
+")).
+Eval vm_compute in ("<<<M433>>>" ++ check (runes_of_ascii "packet
+rootA {@lengthOf(	A ) @leftPad (
+    '0' )@lengthOf( _x ) char[ 0
+]
+// `tick` ""quote"" 'q'
+// a // b
+len , } root packet
+    _x
+{ @lengthOf( MetaDataX
+) u16 x
+`say ""hi""` , match
+    string_ as Foo{ 42  :
+string_
+    ,
+00: T , },char[]
+trueish ,repeat calculatedFrom // c
+x_y_z , // a // b
+}")).
+Eval vm_compute in ("<<<M672>>>" ++ check (runes_of_ascii "//
+root packet  Foo{ char[]//
+leftPad // trailing space 
+,}options { } root
+packet i64_ { @lengthOf( x_y_z ) @calculatedFrom( ""abc"" )  @lengthOf( leftPad )
+repeat body	zchar `it's`  , char[]
+    metadata @lengthOf( MetaDataX
+//	t
+/// triple
+) `doc`
+    , repeat
+Foo Header , /// triple
+}
+")).
+Eval vm_compute in ("<<<M116>>>" ++ check (runes_of_ascii "packet string_ { trueish
+{options1 @lengthOf( Z9_ ) `// not a comment` , // c
+_x
+    //	t
+    @lengthOf( u128), /// triple
+match packetx as charz{[
+1 , 3 ,
+""a\\"" //x
+,10 ] : lengthOf ,
+""" ++ [28040; 24687]%N ++ runes_of_ascii """
+:float	""CRC32"" : // a // b
+calculatedFrom
+, """ ++ [128512]%N ++ runes_of_ascii """ : tag , 00
+:
+rootA, }
+    ,} ,}")).
+Eval vm_compute in ("<<<M749>>>" ++ check (runes_of_ascii "
+MetaData o{ char[]BodyLength
+,
+}
+    options
+    { Foo=uint32 i8i8  = char[ 10
+    ];
+    Logon =  true i64_= string ;
+    }root
+//
+// @lengthOf(
+packet a1
+{ i8i8
+`tab	here` , @calculatedFrom( ""a	b""
+    ) string calculatedFrom
+    @calculatedFrom( ""abc"" )	``
+, }
+")).
+Eval vm_compute in ("<<<M1593>>>" ++ check (runes_of_ascii "packet
+//	t
+// trailing space 
+_x {
+// packet A { u8 x, }
+// c
+char[
+3
+    ] u8x @lengthOf(
+u8x ) , @calculatedFrom(""" ++ [128512]%N ++ runes_of_ascii """ // @lengthOf(
+)
+i16	Foo
+@lengthOf(	string_
+    )`doc`	, repeat repeat	i64 metadata , @lengthOf( string_
+) i8 // c
+u  `line1
+line2`	,
+}
+")).
+Eval vm_compute in ("<<<M4098>>>" ++ check (runes_of_ascii "options {
+    LittleEndian = true;
 }
 
 packet Logon {
+    u8 x,
+    string user,
 }
 
-root packet Cancel {
-    uint16 x,
-    zchar[6] f1,
+packet Logout {
+    u16 reason,
+}
+
+packet Empty {
+}
+
+root packet Frame {
+    u16 MsgType,
+    u16 BodyLen @lengthOf(Body),
+    u8 flags,
+    Logon Body,
+    u32 trailer,
 }")).
-Eval vm_compute in ("<<<M3766>>>" ++ check (runes_of_ascii "
+Eval vm_compute in ("<<<M1662>>>" ++ check (runes_of_ascii "packet
+//	t
+// trailing space 
+_x {
+// packet A { u8 x, }
+// c
+char[
+3
+    ] u8x @lengthOf(
+u8x ) , @calculatedFrom(""" ++ [128512]%N ++ runes_of_ascii """ " ++ [127]%N ++ runes_of_ascii "// @lengthOf(
+)
+i16	Foo
+@lengthOf(	string_
+    )`doc`	, repeat	i64 metadata , @lengthOf( string_
+) i8 // c
+u  `line1
+line2`	,
+}
+")).
+Eval vm_compute in ("<<<M1585>>>" ++ check (runes_of_ascii "packet
+//	t
+// trailing space 
+_x {
+// packet A { u8 x, }
+// c
+char[
+3
+    ] u8x @lengthOf(
+u8x ) , @calculatedFrom(""" ++ [128512]%N ++ runes_of_ascii """ // @lengthOf(
+)
+i16	Foo
+@lengthOf(	string_
+    )int16	, repeat	i64 metadata , @lengthOf( string_
+) i8 // c
+u  `line1
+line2`	,
+}
+")).
+Eval vm_compute in ("<<<M1632>>>" ++ check (runes_of_ascii "packet
+//	t
+// trailing space 
+_x {
+// packet A { u8 x, }
+// c
+char[
+3
+    ] u8x @lengthOf(
+u8x ) , @calculatedFrom(""" ++ [128512]%N ++ runes_of_ascii """ // @lengthOf(
+)
+i16	Foo
+@lengthOf(	string_
+    )`doc`	, repeat	i64 metadata , @lengthOf( string_
+) i8 // c
+  `line1
+line2`	,
+}
+")).
+Eval vm_compute in ("<<<M3737>>>" ++ check (runes_of_ascii "options {
+    charz = ""x y""
+    calculatedFrom = '0'
+}
 
-  packet
-crc{
-    matchKey`tab	here`
-, repeat
-f32a	{// trailing space 
-    zchar{
-string uint8x ,repeat 
-char[4294967296	// trailing space 
+packet msg_type {
+    msg_type asx,
+    string packetx,
+    MetaDataX,
+    Header {
+        i64 packetx `tab	here`,
+    },
+}
 
-  ] msg_type ,
+options {
+    // @lengthOf(
+    uint8x = 0
+    x_y_z = ""x y"";
+}")).
+Eval vm_compute in ("<<<M1637>>>" ++ check (runes_of_ascii "packet
+//	t
+// trailing space 
+_x {
+// packet A { u8 x, }
+// c
+char[
+3
+    ] u8x @lengthOf(
+u8x ) , @calculatedFrom(""" ++ [128512]%N ++ runes_of_ascii """ // @lengthOf(
+)
+i16	Foo
+@lengthOf(	string_
+    )`doc`	, repeat	i64 metadata , @lengthOf( string_
+) i8 // c
+u  	,
+}
+")).
+Eval vm_compute in ("<<<M468>>>" ++ check (runes_of_ascii "options { i64_	= ""\n""; BodyLength
+    = float64 i64_ =
+    false ; }MetaData  Packet  {	uint16 A `u8 x,` ,
+    zchar[ 007 ]i64_ , char[ 007	]
+chars ,
+    float64
+x_y_z,MetaDataX stringy`// not a comment`, }
+MetaData
+msg_type { }")).
+Eval vm_compute in ("<<<M1243>>>" ++ check (runes_of_ascii "packet Header { char
+i8i8 @calculatedFrom( // c
+""a	b""
+    ) , //x
+u16
+    Z9_ ,	} MetaData As	{
+// a // b
+//x
+zchar[ 10
+]crc , } MetaData stringy{
+body metadata `
+` , char[] trueish	`doc`
+, char[] Logon `" ++ [28040; 24687; 31867; 22411]%N ++ runes_of_ascii "` ,
+    }
+")).
+Eval vm_compute in ("<<<M4155>>>" ++ check (runes_of_ascii "options {
+    trueish = ""`tick`"";
+    string_ = """ ++ [233]%N ++ runes_of_ascii "t" ++ [233]%N ++ runes_of_ascii """
+    // c
+}
 
-} ,roots	{ zchar[ 7]u
-, 
-} , uint64
-	chars
-	, 
-} , } ")).
-Eval vm_compute in ("<<<M1369>>>" ++ check (runes_of_ascii "
-packet len
-{ Logon ,@tag( 42 ) Logon { o @calculatedFrom( ""CRC32""
-)`crlf
-line` ,
-char[]
-    /// triple
-    Logon
-    @calculatedFrom(	""x y""	) ,}
-    ,
-    @leftPad ( '0' )body
-, }
-packet uint8x {} // a // b")).
+root packet body {
+    stringy @calculatedFrom(""a	b"") `line1
+        line2`,
+}
+
+packet Logon {
+    @leftPad(' ')
+    //	t
+    i64 string_ `u8 x,`,
+}")).
+Eval vm_compute in ("<<<M693>>>" ++ check (runes_of_ascii "packet _x {  repeat roots
+matchKey `" ++ [233]%N ++ runes_of_ascii "`
+, @rightPad ('\x00')@calculatedFrom( ""it's"" ) @lengthOf(
+tag )
+    match//	t
+zchar
+as zchar
+{
+0123456789  : trueish [""{,}""
+] : metadata , 7 : u, ""`tick`"" : asx
+    ,} ,}")).
 Eval vm_compute in ("<<<M1687>>>" ++ check (runes_of_ascii "options { trueish = = ""`tick`"" ; string_= """ ++ [233]%N ++ runes_of_ascii "t" ++ [233]%N ++ runes_of_ascii """
     // c
     } root
@@ -2222,7 +1949,79 @@ packet { Logon
 u16 string_ `u8 x,` ,
 }
 ")).
-Eval vm_compute in ("<<<M1994>>>" ++ check (runes_of_ascii "MetaData
+Eval vm_compute in ("<<<M1831>>>" ++ check (runes_of_ascii "options { trueish = ""`tick`"" ; string_= """ ++ [233]%N ++ runes_of_ascii "t" ++ [233]%N ++ runes_of_ascii """
+    // c
+    } root
+    packet body { stringy @calculatedFrom(
+""a	b"" ) `line1
+line2` , }
+packet Logon {
+    @leftPad(
+    ' ' ) //	t
+u16 string_ `u8 x,` ,
+
+")).
+Eval vm_compute in ("<<<M1824>>>" ++ check (runes_of_ascii "options { trueish = ""`tick`"" ; string_= """ ++ [233]%N ++ runes_of_ascii "t" ++ [233]%N ++ runes_of_ascii """
+    // c
+    } root
+    packet body { stringy @calculatedFrom(
+""a	b"" ) `line1
+line2` , }
+packet Logon {
+    @leftPad(
+    ' ' ) //	t
+u16 string_ = ,
+}
+")).
+Eval vm_compute in ("<<<M714>>>" ++ check (runes_of_ascii "  root packet u128 { string
+// trailing space 
+//	t
+Pad  `" ++ [28040; 24687; 31867; 22411]%N ++ runes_of_ascii "`
+, @calculatedFrom( ""a\\"")	msg_type, @calculatedFrom( """ ++ [233]%N ++ runes_of_ascii "t" ++ [233]%N ++ runes_of_ascii """ )	match Pad as f32a {	3 :// trailing space 
+repeatCount  ,	} , } // c")).
+Eval vm_compute in ("<<<M978>>>" ++ check (runes_of_ascii "MetaData
+As
+{
+    u128 packetx
+`" ++ [233]%N ++ runes_of_ascii "` //	t
+, tag	o,zchar[ // c
+255 ] rootA `two words`  , rootA msg_type	`it's`
+, u64 packetx , } MetaData T{
+char[
+3
+    ]
+    _x , }
+// trailing space 
+")).
+Eval vm_compute in ("<<<M530>>>" ++ check (runes_of_ascii "// c
+packet BodyLength { u { char[ 007] i8i8`a\` , pack{ match charz as // packet A { u8 x, }
+Header
+    { ""\n""
+    : leftPad } , } , string u8x @calculatedFrom( """ ++ [233]%N ++ runes_of_ascii "t" ++ [233]%N ++ runes_of_ascii """	)	, } ,
+}
+")).
+Eval vm_compute in ("<<<M4060>>>" ++ check (runes_of_ascii "packet Pad {
+}
+
+root packet f32a {
+    // c
+    @calculatedFrom(""it's"")
+    @tag(255)
+    match roots as trueish {
+        7 : tag,
+    },
+    repeat zchar[0] repeatCount,
+}")).
+Eval vm_compute in ("<<<M857>>>" ++ check (runes_of_ascii "packet  MetaDataX
+{
+char
+    falsey,
+    zchar[ 1
+]a1 @calculatedFrom( ""a\\""
+), }packet
+calculatedFrom{ zchar[42 ]
+_x `tab	here` , string roots@lengthOf( chars) , }")).
+Eval vm_compute in ("<<<M1959>>>" ++ check (runes_of_ascii "MetaData
     u { }  options {
 // c
 // @lengthOf(
@@ -2230,162 +2029,12 @@ float = int8 ;rootA =false ; As =	int16 // `tick` ""quote"" 'q'
 repeatCount
     // trailing space 
     =
-    int16
-; u8x =
-    //	t
-    '\x00' ; } options")).
-Eval vm_compute in ("<<<M4373>>>" ++ check (runes_of_ascii "options {
-    roots = int64
-}
-
-// @lengthOf(
-// @lengthOf(
-packet int {
-    char zchar,
-    repeat len {
-        f32a `" ++ [28040; 24687; 31867; 22411]%N ++ runes_of_ascii "`,
-    },
-    zchar[007] As `it's`,
-    zchar[007] uint8x @lengthOf(Foo),
-}")).
-Eval vm_compute in ("<<<M543>>>" ++ check (runes_of_ascii "// `tick` ""quote"" 'q'
-MetaData body{  zchar[ 0 ] asx // trailing space 
-`a\` , float crc
-,f32 trueish `crlf
-line`	,// " ++ [128512]%N ++ runes_of_ascii " emoji
-uint64 float ,body//	t
-u
-    `
-`
-    ,
-    int16 stringy //	t
-,}
-")).
-Eval vm_compute in ("<<<M1122>>>" ++ check (runes_of_ascii "root packet a1 {u8x{ char[ // trailing space 
-10] tag
-`` , } // " ++ [128512]%N ++ runes_of_ascii " emoji
-, } packet packetx { string crc	@calculatedFrom(""abc""	), @lengthOf( Packet ) repeat u32
-rootA , // @lengthOf(
-}
-")).
-Eval vm_compute in ("<<<M3579>>>" ++ check (runes_of_ascii "
-packet A{	u8	a ,
-
-    }
-packet
-
-B  {u16	b,
-
-}root
-
-packet P{ u8	K1
-    ,u8 K2 
-, 
-match
-    K1 as M1  {
-    1
-    :	A
-,
-
-    }	, match
-
-    K2
-as
-	M2
-
-    {1: B,	} , 
-} ")).
-Eval vm_compute in ("<<<M4198>>>" ++ check (runes_of_ascii "  options{
-	_x=
-    true
-}
-	options
-    {
-
-    o
-
-=  /// triple
-    false
-
-;	chars =""\n"" }packet 
-Pad
-/// triple
-		// packet A { u8 x, }
-	{
-chars
-    // a // b
-  ,	} ")).
-Eval vm_compute in ("<<<M69>>>" ++ check (runes_of_ascii "options { o =""x y""
-//x
-// trailing space 
-; float
-    = ""\n"" metadata
-// " ++ [128512]%N ++ runes_of_ascii " emoji
-// `tick` ""quote"" 'q'
-=
-    """ ++ [128512]%N ++ runes_of_ascii """;Logon
-//
-//	t
-=
-true
-; i8i8  = string// @lengthOf(
-}")).
-Eval vm_compute in ("<<<M2356>>>" ++ check (runes_of_ascii "// c
-packet x { @lengthOf( metadata ) repeat lengthOf
-,a1{
-trueish	,// c
-repeat//	t
-MetaDataX , } , zchar[ zchar[
-    42	] rootA // `tick` ""quote"" 'q'
-,
-    }
-")).
-Eval vm_compute in ("<<<M2381>>>" ++ check (runes_of_ascii "// c
-packet x { @lengthOf( metadata ) repeat lengthOf
-,caf" ++ [233]%N ++ runes_of_ascii "_1{
-trueish	,// c
-repeat//	t
-MetaDataX , } , zchar[
-    42	] rootA // `tick` ""quote"" 'q'
-,
-    }
-")).
-Eval vm_compute in ("<<<M2326>>>" ++ check (runes_of_ascii "// c
-packet x { @lengthOf( metadata ) repeat lengthOf
-,a1{
-trueish	,// c
-repeat//	t
-MetaDataX , } , zchar[
-    42	] rootA // `tick` ""quote"" 'q'
-, ,
-    }
-")).
-Eval vm_compute in ("<<<M2110>>>" ++ check (runes_of_ascii "options{
+    int16")).
+Eval vm_compute in ("<<<M2107>>>" ++ check (runes_of_ascii "options{
 _x
 = true
-} options
-{ { o	= /// triple
-false
-    ; chars
-= ""\n"" } root packet	Pad
-/// triple
-// packet A { u8 x, }
-{	chars
-    // a // b
-    ,}")).
-Eval vm_compute in ("<<<M4404>>>" ++ check (runes_of_ascii "// " ++ [27880; 37322]%N ++ runes_of_ascii "
-root packet chars {
-    @rightPad()
-    u8x @calculatedFrom(""a	b"") `line1
-    line2`,
-    repeat tag {
-        repeat options1 f32a `" ++ [28040; 24687; 31867; 22411]%N ++ runes_of_ascii "`,
-    },
-}")).
-Eval vm_compute in ("<<<M2096>>>" ++ check (runes_of_ascii "options{
-_x
-= }
-true options
+} `line1
+line2`
 { o	= /// triple
 false
     ; chars
@@ -2395,21 +2044,58 @@ false
 {	chars
     // a // b
     ,}")).
-Eval vm_compute in ("<<<M2109>>>" ++ check (runes_of_ascii "options{
-_x
-= true
-} options
- o	= /// triple
-false
-    ; chars
-= ""\n"" } root packet	Pad
-/// triple
-// packet A { u8 x, }
-{	chars
-    // a // b
-    ,}")).
-Eval vm_compute in ("<<<M2386>>>" ++ check (runes_of_ascii "// c
-packet x { @lengthOf( i32 ) repeat lengthOf
+Eval vm_compute in ("<<<M2320>>>" ++ check (runes_of_ascii "// c
+packet x { @lengthOf( metadata ) repeat lengthOf
+,a1{
+trueish	, ,// c
+repeat//	t
+MetaDataX , } , zchar[
+    42	] rootA // `tick` ""quote"" 'q'
+,
+    }
+")).
+Eval vm_compute in ("<<<M4328>>>" ++ check (runes_of_ascii "packet
+
+    A
+
+    {
+
+match
+k
+
+as
+n	{
+    [ 
+1
+	, 22,""c c"" ,
+4
+
+,
+5 
+,
+
+""f"" ,
+7 ,
+
+8
+,
+
+""i"" 
+,10
+	, 11,
+	""l""
+	]
+    :
+	B
+
+    2 :
+
+    C}
+, }
+
+")).
+Eval vm_compute in ("<<<M2400>>>" ++ check (runes_of_ascii "// c
+packet x { @lengthOf( metadata , repeat lengthOf
 ,a1{
 trueish	,// c
 repeat//	t
@@ -2418,81 +2104,68 @@ MetaDataX , } , zchar[
 ,
     }
 ")).
-Eval vm_compute in ("<<<M4423>>>" ++ check (runes_of_ascii "packet	A{ match k
-    as  n
-	{	[
-""a"" 
+Eval vm_compute in ("<<<M1228>>>" ++ check (runes_of_ascii "// packet A { u8 x, }
+options { matchKey =	true ; } MetaData int {uint16
+    packetx`tab	here` ,	}
+options/// triple
+{ msg_type = """"  ; } // @lengthOf(")).
+Eval vm_compute in ("<<<M3929>>>" ++ check (runes_of_ascii "packet A {
+    match k as n {
+        [
+            1, 22, 007, 4, 5,
+            66, 7, 8, 9, 10,
+            11
+        ] : B,
+        2 : C,
+    },
+}")).
+Eval vm_compute in ("<<<M1795>>>" ++ check (runes_of_ascii "options { trueish = ""`tick`"" ; string_= """ ++ [233]%N ++ runes_of_ascii "t" ++ [233]%N ++ runes_of_ascii """
+    // c
+    } root
+    packet body { stringy @calculatedFrom(
+""a	b"" ) `line1
+line2` , }
+packet Logon {")).
+Eval vm_compute in ("<<<M982>>>" ++ check (runes_of_ascii "packet	u128 { @leftPad ( ' ' )int32 _x `line1
+line2`  ,
+    @leftPad (
+    ) u64 stringy
+    // @lengthOf(
+    @lengthOf( matchKey
+    ) `it's` ,}
+")).
+Eval vm_compute in ("<<<M1271>>>" ++ check (runes_of_ascii "packet options1 {
+@leftPad
+( '0' )
+asx //
+{ MetaDataX ,u16  u8x `
+`
+, trueish `a\` ,float32 rootA @calculatedFrom( ""a	b"" ) ,}// a // b
 ,
-    22	, ""c c""  ,
-4
-, 
-""e"",
-
-    66 ,
-""g""  ,
-8 ,
-""i"", 
-10	, 
-""k"" 
-,
-	12	]  :
-	B
-
-    ,
-	2:
-	C
-	}
+    }")).
+Eval vm_compute in ("<<<M1165>>>" ++ check (runes_of_ascii "
+MetaData calculatedFrom	{	crc	Logon `` , x
+u8x //x
+`line1
+line2`
+//	t
+// packet A { u8 x, }
+, i64
+u128  ,char[ 0123456789] packetx //x
 , }
 ")).
-Eval vm_compute in ("<<<M1314>>>" ++ check (runes_of_ascii "MetaData uint8x {
-    } packet i8i8{ // a // b
-repeat uint64 roots , string
-    falsey
-,// trailing space 
-} options  {
-repeatCount = 007 ; }
-")).
-Eval vm_compute in ("<<<M324>>>" ++ check (runes_of_ascii "MetaData metadata {
-//x
-// " ++ [128512]%N ++ runes_of_ascii " emoji
-}
-    root packet chars {
-    @lengthOf(Packet
-    // @lengthOf(
-    ) // c
-repeat int16 roots `
-` ,	}")).
-Eval vm_compute in ("<<<M3761>>>" ++ check (runes_of_ascii "
-
-  packet A
-
-    {match k as
-    n {
-	[
-1
-,22 
-, ""c c"",
-    4	,5 , ""f"" , 7
-
-    ,
-8
-,  ""i"",
-	10
-	] : B
-2	:C
-}
-
-    , }
-")).
-Eval vm_compute in ("<<<M4012>>>" ++ check (runes_of_ascii "root packet leftPad {
-    int64 BodyLength `// not a comment`,
-    @tag(0)
-    @leftPad()
-    @tag(255)
-    repeat Header,
-}// c")).
-Eval vm_compute in ("<<<M4252>>>" ++ check (runes_of_ascii "root packet matchKey {
-    zchar[3] pack @calculatedFrom(""a	b"") `doc`,// c
+Eval vm_compute in ("<<<M3782>>>" ++ check (runes_of_ascii "MetaData T {
+    i64 body `
+    `,
+    string packetx,
+    int Pad,// @lengthOf(
+    char[] A `" ++ [233]%N ++ runes_of_ascii "`,
+    i8i8 float,
+    repeatCount o,
+}")).
+Eval vm_compute in ("<<<M3786>>>" ++ check (runes_of_ascii "root packet matchKey {
+    // c
+    zchar[3] pack @calculatedFrom(""a	b"") `doc`,
 }
 
 options {
@@ -2501,279 +2174,318 @@ options {
 MetaData A {
     int8 msg_type,
 }")).
-Eval vm_compute in ("<<<M540>>>" ++ check (runes_of_ascii "MetaData T {
-i64 body `
-`// c
-, string packetx, int
-Pad , // @lengthOf(
-char[]  A `" ++ [233]%N ++ runes_of_ascii "`, i8i8 float ,repeatCount
-    o , }
+Eval vm_compute in ("<<<M632>>>" ++ check (runes_of_ascii "packet	roots { zchar @lengthOf(calculatedFrom )  `" ++ [233]%N ++ runes_of_ascii "` , zchar[ 1] Foo `
+`, }
+options {
+    i64_ = ""a\\"" Logon= 1
+i64_= i64	}
 ")).
-Eval vm_compute in ("<<<M3340>>>" ++ check (runes_of_ascii "root packet matchKey { zchar[ 3 ] pack @calculatedFrom( ""a	b"" ) `doc` , } options // c
-{ } MetaData A { int8 msg_type , }")).
-Eval vm_compute in ("<<<M1460>>>" ++ check (runes_of_ascii "
+Eval vm_compute in ("<<<M3548>>>" ++ check (runes_of_ascii "packet B {
+    u8 a,
+}
+root packet P {
+    u8 K,
+    match K as Body {
+        1 : B,
+    },
+    u16 L @lengthOf(Body),
+}
+")).
+Eval vm_compute in ("<<<M3334>>>" ++ check (runes_of_ascii "root packet matchKey { zchar[ 3 ] pack @calculatedFrom( ""a	b"" ) `doc` // c
+, } options { } MetaData A { int8 msg_type , }")).
+Eval vm_compute in ("<<<M351>>>" ++ check (runes_of_ascii "packet lengthOf
+    { @tag(007 )trueish
+    // c
+    {
+    repeat string asx,
+} , } options
+    {roots=
+    ""x y""	; }
+")).
+Eval vm_compute in ("<<<M4175>>>" ++ check (runes_of_ascii "packet  A	{
+match  k as
+	n
+
+    { [ 1
+
+,
+	22
+,
+	007 ,
+
+4 , 5 
+,  66	, 7,
+8,
+
+    9
+
+, 10	]
+    : B  2 : C
+
+}  ,  }")).
+Eval vm_compute in ("<<<M1427>>>" ++ check (runes_of_ascii "
+packet
+    falsey { Header@calculatedFrom(""packet""   , char[
+    0123456789 ] packetx
+    , } // `tick` ""quote"" 'q'")).
+Eval vm_compute in ("<<<M3696>>>" ++ check (runes_of_ascii "packet lengthOf {
+    @tag(007)
+    trueish {
+        repeat string asx,
+    },
+}
+
+options {
+    roots = ""x y"";
+}")).
+Eval vm_compute in ("<<<M1468>>>" ++ check (runes_of_ascii "
 packet
     falsey { Header@calculatedFrom(""packet""  ) , char[
     0123456789 ] packetx
-    u64 } // `tick` ""quote"" 'q'")).
-Eval vm_compute in ("<<<M1414>>>" ++ check (runes_of_ascii "
-packet
-    falsey { @calculatedFrom(Header""packet""  ) , char[
-    0123456789 ] packetx
-    , } // `tick` ""quote"" 'q'")).
-Eval vm_compute in ("<<<M2991>>>" ++ check (runes_of_ascii "packet A {
-  match k as n {
-    [""a"", ""bb"", ""c c"", ""d"", ""e"", ""f"", ""g"", ""h"", ""i"", ""j"", ""k"", ""l""] : B
-    2 : C
-  },
-}")).
-Eval vm_compute in ("<<<M3907>>>" ++ check (runes_of_ascii "/// triple
-MetaData T {
-    string_ falsey `u8 x,`,
-    matchKey chars `u8 x,`,
-    calculatedFrom f32a `doc`,
-}")).
-Eval vm_compute in ("<<<M3852>>>" ++ check (runes_of_ascii "options {
-    packetx = 255;
-}
+    , } // `tick` ""quo")).
+Eval vm_compute in ("<<<M4338>>>" ++ check (runes_of_ascii "
 
-packet float {
-    repeat f64 metadata `
-        `,
-}
-
-MetaData leftPad {
-}//x")).
-Eval vm_compute in ("<<<M53>>>" ++ check (runes_of_ascii "MetaData
-trueish {int
-falsey , char[
-10
-    ] u  , zchar[ 007 ] leftPad , string
-x `two words`
-    ,  }
+  packet
+	falsey { 
+Header @calculatedFrom( ""packet"") , char[
+0123456789 ]
+	packetx
+	,}	// `tick` ""quo
+ 
 ")).
-Eval vm_compute in ("<<<M4327>>>" ++ check (runes_of_ascii "options {
-    f32a = zchar[3]
+Eval vm_compute in ("<<<M4438>>>" ++ check (runes_of_ascii "
+packet	A	{
+	match
+k as
+    n
+{	[
+
+    ""a""
+	,
+	22 ,
+
+""c c""
+]:
+
+    B
+
+,2  :
+
+    C
+
+    } ,
 }
 
-packet falsey {
-    Z9_,
-    body @calculatedFrom(""\n""),
+")).
+Eval vm_compute in ("<<<M838>>>" ++ check (runes_of_ascii "options{ x_y_z = ""CRC32"" ;
+} MetaData
+matchKey { char[] u `u8 x,` , // trailing space 
+}options {}
+")).
+Eval vm_compute in ("<<<M18>>>" ++ check (runes_of_ascii "// packet A { u8 x, }
+options{lengthOf= 255 // " ++ [27880; 37322]%N ++ runes_of_ascii "
+; /// triple
+}packet MetaDataX {int32  body
+, }")).
+Eval vm_compute in ("<<<M4254>>>" ++ check (runes_of_ascii "options
+{
+	options1  = char[	00 ]; len =
+
+""" ++ [128512]%N ++ runes_of_ascii """
+	; a1 =  42 Header
+    =
+	' ' 
+} packet	Foo
+{ 
+}
+
+")).
+Eval vm_compute in ("<<<M3727>>>" ++ check (runes_of_ascii "packet o {
+    repeat Logon uint8x,
 }
 
 options {
+    asx = zchar[3]
+    stringy = '\x00'// c
 }")).
-Eval vm_compute in ("<<<M758>>>" ++ check (runes_of_ascii "
-options {
-    rootA
-    =	i64 i64_ = true matchKey
-='\x00'  charz // packet A { u8 x, }
-=false ; }")).
-Eval vm_compute in ("<<<M1541>>>" ++ check (runes_of_ascii "packet
-//	t
-// trailing space 
-_x {
-// packet A { u8 x, }
+Eval vm_compute in ("<<<M461>>>" ++ check (runes_of_ascii "packet x_y_z {msg_type {  char[]Z9_ @lengthOf( Packet
+    ) `` , }, } // packet A { u8 x, }")).
+Eval vm_compute in ("<<<M3306>>>" ++ check (runes_of_ascii "MetaData float { float64 charz `
+` , } root packet chars { @rightPad ( '0' ) Foo , }
 // c
-char[
-3
-    ] u8x @lengthOf(
-u8x )")).
-Eval vm_compute in ("<<<M3982>>>" ++ check (runes_of_ascii "packet A {
-    match k as n {
-        [""a"", ""bb"", ""c c"", ""d"", ""e""] : B,
-        2 : C,
-    },
-}")).
-Eval vm_compute in ("<<<M4117>>>" ++ check (runes_of_ascii "packet A {
-    match k as n {
-        [007, ""a"", ""bb"", ""d"", ""e""] : B,
-        2 : C,
-    },
-}")).
-Eval vm_compute in ("<<<M2242>>>" ++ check (runes_of_ascii "options
-{ } options { BodyLength= u16 u16 Header= f64 ; u128 =
-    true
-    ; } // a // b")).
-Eval vm_compute in ("<<<M3276>>>" ++ check (runes_of_ascii "MetaData float { float64
-// c
-charz `
-` , } root packet chars { @rightPad ( '0' ) Foo , }")).
-Eval vm_compute in ("<<<M3487>>>" ++ check (runes_of_ascii "packet chars // c
-{ } packet MetaDataX { @tag( 42 ) i16 string_ , repeat x `say ""hi""` , }")).
-Eval vm_compute in ("<<<M3972>>>" ++ check (runes_of_ascii "packet falsey {
-    Header @calculatedFrom(""packet""),
-    char[0123456789] packetx,
-}// `")).
-Eval vm_compute in ("<<<M2253>>>" ++ check (runes_of_ascii "options
-{ } options { BodyLength= u16 Header f64 = ; u128 =
-    true
-    ; } // a // b")).
-Eval vm_compute in ("<<<M2168>>>" ++ check (runes_of_ascii "options{
-_x
-= true
-} options
-{ o	= /// triple
-false
-    ; chars
-= ""\n"" } root packet")).
-Eval vm_compute in ("<<<M3226>>>" ++ check (runes_of_ascii "packet metadata { Logon { A `" ++ [28040; 24687; 31867; 22411]%N ++ runes_of_ascii "`
-// c
-, tag o , } , zchar len `// not a comment` , }")).
-Eval vm_compute in ("<<<M2212>>>" ++ check (runes_of_ascii "options
- } options { BodyLength= u16 Header= f64 ; u128 =
-    true
-    ; } // a // b")).
-Eval vm_compute in ("<<<M3446>>>" ++ check (runes_of_ascii "packet o { repeat Logon uint8x , } options
-// c
-{ asx = zchar[ 3 ] stringy = '\x00' }")).
-Eval vm_compute in ("<<<M3812>>>" ++ check (runes_of_ascii "
-MetaData
-
-    T	{
-crc  /// triple
-    u8x`say ""hi""`
-,
-
-}  // `tick` ""quote"" 'q'
 ")).
-Eval vm_compute in ("<<<M2931>>>" ++ check (runes_of_ascii "packet A {
-  match k as n {
-    [1, 22, ""c c"", 4, 5, ""f"", 7] : B,
-    2 : C
-  },
-}")).
-Eval vm_compute in ("<<<M3591>>>" ++ check (runes_of_ascii "packet orderItem  {u8
-    a ,}  root packet 
-newOrder
-	{ orderItem , u8	x
-    ,}
-")).
-Eval vm_compute in ("<<<M2208>>>" ++ check (runes_of_ascii "
+Eval vm_compute in ("<<<M3282>>>" ++ check (runes_of_ascii "MetaData float { float64 charz `
+` ,
+// c
+} root packet chars { @rightPad ( '0' ) Foo , }")).
+Eval vm_compute in ("<<<M3493>>>" ++ check (runes_of_ascii "packet chars { } packet // c
+MetaDataX { @tag( 42 ) i16 string_ , repeat x `say ""hi""` , }")).
+Eval vm_compute in ("<<<M1944>>>" ++ check (runes_of_ascii "MetaData
+    u { }  options {
+// c
+// @lengthOf(
+float = int8 ;rootA =false ; As =	int16")).
+Eval vm_compute in ("<<<M2300>>>" ++ check (runes_of_ascii "options
+{ } options { BodyLength= u16 Header|= f64 ; u128 =
+    true
+    ; } // a // b")).
+Eval vm_compute in ("<<<M2233>>>" ++ check (runes_of_ascii "options
+{ } options { =BodyLength u16 Header= f64 ; u128 =
+    true
+    ; } // a // b")).
+Eval vm_compute in ("<<<M3233>>>" ++ check (runes_of_ascii "packet metadata { Logon { A `" ++ [28040; 24687; 31867; 22411]%N ++ runes_of_ascii "` , tag o , // c
+} , zchar len `// not a comment` , }")).
+Eval vm_compute in ("<<<M2292>>>" ++ check (runes_of_ascii "options
 { } options { BodyLength= u16 Header= f64 ; u128 =
     true
-    ; } // a // b")).
+    ; } // a // ")).
+Eval vm_compute in ("<<<M3456>>>" ++ check (runes_of_ascii "packet o { repeat Logon uint8x , } options { asx = zchar[ 3
+// c
+] stringy = '\x00' }")).
+Eval vm_compute in ("<<<M1105>>>" ++ check (runes_of_ascii "  packet
+    //	t
+    lengthOf
+{ @tag( 3
+)	@lengthOf( lengthOf )u64  options1 , }")).
+Eval vm_compute in ("<<<M3399>>>" ++ check (runes_of_ascii "MetaData body {
+// c
+i64 pack `it's` , } packet stringy { int16 calculatedFrom , }")).
+Eval vm_compute in ("<<<M1740>>>" ++ check (runes_of_ascii "options { trueish = ""`tick`"" ; string_= """ ++ [233]%N ++ runes_of_ascii "t" ++ [233]%N ++ runes_of_ascii """
+    // c
+    } root
+    packet body")).
+Eval vm_compute in ("<<<M2832>>>" ++ check (runes_of_ascii ") char[] u64 , int16 float32 = } match @lengthOf( match @lengthOf( MetaData i32")).
 Eval vm_compute in ("<<<M2887>>>" ++ check (runes_of_ascii "packet A {
   match k as n {
     [""a"", ""bb"", ""c c"", ""d""] : B
     2 : C
   },
 }")).
-Eval vm_compute in ("<<<M2974>>>" ++ check (runes_of_ascii "packet A { Inner { match k as n { [1,22,007,4,5,66,7,8,9,10] : B, }, }, }")).
-Eval vm_compute in ("<<<M2961>>>" ++ check (runes_of_ascii "packet A { Inner { match k as n { [1,22,007,4,5,66,7,8,9] : B, }, }, }")).
-Eval vm_compute in ("<<<M4126>>>" ++ check (runes_of_ascii "
-packet
-	x
-	{ @rightPad( 
-)
-repeat  roots	Logon `doc` 
-,}
-    // c")).
-Eval vm_compute in ("<<<M2864>>>" ++ check (runes_of_ascii "packet A {
+Eval vm_compute in ("<<<M2906>>>" ++ check (runes_of_ascii "packet A {
   match k as n {
-    [""a"", ""bb""] : B,
+    [1, 22, ""c c"", 4, 5] : B
     2 : C
   },
 }")).
-Eval vm_compute in ("<<<M3541>>>" ++ check (runes_of_ascii "
-
-  root
-    packet P  { hdr
-
-    {
-u8
-
-a
-	,
-}  ,  u8	x, 
-}")).
-Eval vm_compute in ("<<<M3032>>>" ++ check (runes_of_ascii "packet A {
-    B b `x
-`,
-    B `x
-`,
-    repeat B bs `x
-`,
-}")).
-Eval vm_compute in ("<<<M3366>>>" ++ check (runes_of_ascii "packet
-// c
-x { @rightPad ( ) repeat roots Logon `doc` , }")).
-Eval vm_compute in ("<<<M2857>>>" ++ check (runes_of_ascii "packet A {
+Eval vm_compute in ("<<<M2898>>>" ++ check (runes_of_ascii "packet A {
   match k as n {
-    [1] : B,
+    [1, 22, 007, 4, 5] : B
     2 : C
   },
 }")).
-Eval vm_compute in ("<<<M4366>>>" ++ check (runes_of_ascii "
-MetaData  msg_type
-	{ zchar[
-    65535 ]
-pack 
-,}
-
-")).
-Eval vm_compute in ("<<<M537>>>" ++ check (runes_of_ascii "
-MetaData u
-{} packet Header
-{ i64 Logon ``	, }
-")).
-Eval vm_compute in ("<<<M1156>>>" ++ check (runes_of_ascii "
-options {
-    u8x// @lengthOf(
-=
-    false }
-
-")).
-Eval vm_compute in ("<<<M1654>>>" ++ check (runes_of_ascii "packet
+Eval vm_compute in ("<<<M2875>>>" ++ check (runes_of_ascii "packet A {
+  match k as n {
+    [1, ""bb"", 007] : B,
+    2 : C
+  },
+}")).
+Eval vm_compute in ("<<<M1383>>>" ++ check (runes_of_ascii "root packet
 //	t
-// trailing space 
-_x {
-// packet")).
-Eval vm_compute in ("<<<M2713>>>" ++ check (runes_of_ascii "i32 @leftPad '0' f64 as root ; } root int64")).
-Eval vm_compute in ("<<<M3203>>>" ++ check (runes_of_ascii "root packet u128 { chars `it's` , } // c
+/// triple
+calculatedFrom { char[0 ]
+Packet, }
 ")).
-Eval vm_compute in ("<<<M4371>>>" ++ check (runes_of_ascii "options {
-    a = 1;// a
-    b = 2// b
+Eval vm_compute in ("<<<M2868>>>" ++ check (runes_of_ascii "packet A {
+  match k as n {
+    [""a"", 22] : B,
+    2 : C
+  },
 }")).
-Eval vm_compute in ("<<<M2615>>>" ++ check (runes_of_ascii "packet A { match as as n { 1 : B }, }")).
-Eval vm_compute in ("<<<M799>>>" ++ check (runes_of_ascii "//
-options {
-    Z9_  =	65535; } 	 ")).
-Eval vm_compute in ("<<<M2621>>>" ++ check (runes_of_ascii "packet A { @tag(1) @tag(2) u8 x, }")).
-Eval vm_compute in ("<<<M979>>>" ++ check (runes_of_ascii "root packet calculatedFrom{ } 	 ")).
-Eval vm_compute in ("<<<M3954>>>" ++ check (runes_of_ascii "options {
-    lengthOf = '0';
-}")).
-Eval vm_compute in ("<<<M3142>>>" ++ check (runes_of_ascii "packet A {
- u8 x `d" ++ [6158]%N ++ runes_of_ascii "`, // c" ++ [6158]%N ++ runes_of_ascii "
-}")).
-Eval vm_compute in ("<<<M1168>>>" ++ check (runes_of_ascii "MetaData Foo// " ++ [128512]%N ++ runes_of_ascii " emoji
-{  }")).
-Eval vm_compute in ("<<<M2628>>>" ++ check (runes_of_ascii "packet A { u8 x, @tag(1) }")).
-Eval vm_compute in ("<<<M634>>>" ++ check (runes_of_ascii "options {
-As = true ; }")).
-Eval vm_compute in ("<<<M51>>>" ++ check (runes_of_ascii "packet BodyLength {}
+Eval vm_compute in ("<<<M144>>>" ++ check (runes_of_ascii "MetaData Pad{	x_y_z
+    // packet A { u8 x, }
+    T ,
+    }
 ")).
-Eval vm_compute in ("<<<M1031>>>" ++ check (runes_of_ascii "root packet u128 { }")).
-Eval vm_compute in ("<<<M2574>>>" ++ check (runes_of_ascii "packet A { x `d`, }")).
-Eval vm_compute in ("<<<M1267>>>" ++ check (runes_of_ascii "root packet a1 { }")).
-Eval vm_compute in ("<<<M3120>>>" ++ check (runes_of_ascii "packet A {
+Eval vm_compute in ("<<<M2720>>>" ++ check (runes_of_ascii "i8 root root 10 [ [ u32 } u8 zchar[ char packet char[] u64")).
+Eval vm_compute in ("<<<M1259>>>" ++ check (runes_of_ascii "packet float //	t
+{ //
 }
-// c" ++ [12]%N)).
-Eval vm_compute in ("<<<M3068>>>" ++ check (runes_of_ascii "packet A {
-}// c" ++ [160]%N)).
+MetaData i8i8 {uint8x i8i8,
+}")).
+Eval vm_compute in ("<<<M1436>>>" ++ check (runes_of_ascii "
+packet
+    falsey { Header@calculatedFrom(""packet""  )")).
+Eval vm_compute in ("<<<M399>>>" ++ check (runes_of_ascii "
+packet
+    msg_type {repeat //	t
+lengthOf _x ,
+}")).
+Eval vm_compute in ("<<<M1101>>>" ++ check (runes_of_ascii "packet
+len{
+int16 trueish
+`
+` // " ++ [128512]%N ++ runes_of_ascii " emoji
+, }
+")).
+Eval vm_compute in ("<<<M1216>>>" ++ check (runes_of_ascii "
+MetaData
+    A
+    //x
+    { char[] asx ,}
+")).
+Eval vm_compute in ("<<<M2770>>>" ++ check (runes_of_ascii "as match zchar[ packet @leftPad = as zchar[")).
+Eval vm_compute in ("<<<M4476>>>" ++ check (runes_of_ascii "root packet
+A { u8
+
+    x
+`a
+b`
+, }
+
+")).
+Eval vm_compute in ("<<<M729>>>" ++ check (runes_of_ascii "
+packet // packet A { u8 x, }
+rootA { }")).
+Eval vm_compute in ("<<<M2773>>>" ++ check (runes_of_ascii "@tag( i16 MetaData @calculatedFrom( ;")).
+Eval vm_compute in ("<<<M1208>>>" ++ check (runes_of_ascii "options{
+Logon
+    //x
+    = ' '; }")).
+Eval vm_compute in ("<<<M3030>>>" ++ check (runes_of_ascii "root packet A {
+    u8 x `a
+
+b`,
+}")).
+Eval vm_compute in ("<<<M2740>>>" ++ check ([65533]%N ++ runes_of_ascii "O" ++ [65533; 65533]%N ++ runes_of_ascii "w" ++ [19; 65533; 65533]%N ++ runes_of_ascii "o" ++ [65533; 18]%N ++ runes_of_ascii "/" ++ [65533]%N ++ runes_of_ascii "\i" ++ [65533; 65533; 21; 65533; 65533; 26; 65533; 65533]%N ++ runes_of_ascii "zs" ++ [127; 65533; 29]%N ++ runes_of_ascii "?=%A")).
+Eval vm_compute in ("<<<M1469>>>" ++ check (runes_of_ascii "
+packet
+    falsey { Header@ca")).
+Eval vm_compute in ("<<<M1002>>>" ++ check (runes_of_ascii "//x
+options {
+o =//x
+' '
+; }
+")).
+Eval vm_compute in ("<<<M1421>>>" ++ check (runes_of_ascii "
+packet
+    falsey { Header")).
+Eval vm_compute in ("<<<M2718>>>" ++ check (runes_of_ascii "P@" ++ [65533; 65533; 65533; 65533]%N ++ runes_of_ascii "hB" ++ [65533]%N ++ runes_of_ascii "B" ++ [65533; 65533; 65533; 65533; 65533]%N ++ runes_of_ascii "F}" ++ [0; 65533; 65533; 65533]%N ++ runes_of_ascii "a
+" ++ [65533]%N ++ runes_of_ascii "O" ++ [65533]%N)).
+Eval vm_compute in ("<<<M4213>>>" ++ check (runes_of_ascii "packet Logon {
+    Foo,
+}")).
+Eval vm_compute in ("<<<M2782>>>" ++ check (runes_of_ascii ", char[] ) MetaData u32")).
+Eval vm_compute in ("<<<M3153>>>" ++ check (runes_of_ascii "// a// bpacket A {}")).
+Eval vm_compute in ("<<<M803>>>" ++ check (runes_of_ascii "MetaData
+zchar{ }
+")).
+Eval vm_compute in ("<<<M215>>>" ++ check (runes_of_ascii "
+packet uint8x	{	}")).
+Eval vm_compute in ("<<<M3115>>>" ++ check (runes_of_ascii "packet A {
+}
+// c" ++ [11]%N)).
+Eval vm_compute in ("<<<M3063>>>" ++ check (runes_of_ascii "packet A {
+}// c" ++ [12288]%N)).
 Eval vm_compute in ("<<<M2827>>>" ++ check (runes_of_ascii "options packet :")).
-Eval vm_compute in ("<<<M2671>>>" ++ check (runes_of_ascii "options A { }")).
-Eval vm_compute in ("<<<M2854>>>" ++ check (runes_of_ascii "( match , {")).
-Eval vm_compute in ("<<<M2484>>>" ++ check (runes_of_ascii "@leftpad")).
-Eval vm_compute in ("<<<M991>>>" ++ check (runes_of_ascii " // " ++ [27880; 37322]%N)).
-Eval vm_compute in ("<<<M2450>>>" ++ check (runes_of_ascii "true1")).
-Eval vm_compute in ("<<<M470>>>" ++ check (runes_of_ascii "//
-
-")).
-Eval vm_compute in ("<<<M333>>>" ++ check (runes_of_ascii "
-
-")).
-Eval vm_compute in ("<<<M2813>>>" ++ check (runes_of_ascii "t^h")).
-Eval vm_compute in ("<<<M2506>>>" ++ check (runes_of_ascii """")).
+Eval vm_compute in ("<<<M2098>>>" ++ check (runes_of_ascii "options{
+_x
+=")).
+Eval vm_compute in ("<<<M2841>>>" ++ check (runes_of_ascii "f63].b{\{1C")).
+Eval vm_compute in ("<<<M2638>>>" ++ check (runes_of_ascii "packet A")).
+Eval vm_compute in ("<<<M2458>>>" ++ check (runes_of_ascii "string")).
+Eval vm_compute in ("<<<M2512>>>" ++ check (runes_of_ascii """a
+b""")).
+Eval vm_compute in ("<<<M2470>>>" ++ check (runes_of_ascii "ROOT")).
+Eval vm_compute in ("<<<M2502>>>" ++ check (runes_of_ascii "//")).
+Eval vm_compute in ("<<<M2478>>>" ++ check (runes_of_ascii "'0")).
+Eval vm_compute in ("<<<M2681>>>" ++ check (runes_of_ascii " ")).
